@@ -66,6 +66,14 @@ Front ends (DESIGN.md section 4):
 Anything it does not recognise is a loud failure (exit 3, message naming file/item/token): the checks then
 treat every property that depends on the tables as "tie broken" and go searching for a failing input.
 Output files are only rewritten when their content changes.
+
+Harmless refactorings of the Rust text are absorbed by a normalisation pre-pass in front of all front ends (section
+"normalisation pre-pass" below): local binder names and `1 + x` / `x + 1` are canonicalised always; integer literal spelling,
+literal-only arithmetic, a single-use private integer const, `!v.gte(a, b)`, `x.map(f).unwrap_or(d)`, `match e { Some(p) => .., None => {} }`,
+a single-use `let` of a pure expression, a single-use private helper fn, a `for`/push loop that is a map/collect, and one kind of
+statement exchange are rewritten only to re-try a front end that failed.  Every rewrite is an equivalence of Rust programs;
+tools/selftest/benign_check.py reports which of the benign patches under tools/selftest/benign still disturb a table.
+`rust2coq.py --dump-binders` prints the two reference tables (EXPECTED_BINDERS, EXPECTED_SUMS) for the sources under $PEPPI_REPO.
 """
 import os, re, sys, json
 
@@ -213,6 +221,1508 @@ def read(rel):
     p = os.path.join(REPO, rel)
     with open(p) as f:
         return f.read()
+
+
+# ------------------------------------------------------------------------------------------------
+# normalisation pre-pass: the front ends never tokenize a Rust file themselves, they ask file_toks(rel).
+#
+# Every front end recognises a fixed set of statement shapes; a behaviour-PRESERVING edit of the Rust text must not look like a
+# behaviour change.  Two mechanisms, both of which only ever replace the program by an EQUIVALENT program (so whatever a front
+# end then reads off the text is true of the source as written):
+#
+#   (1) always on -- canonicalisation against two small tables recorded from the reference sources (`--dump-binders`):
+#       alpha_canon: the names of local binders (parameters, `let`, closure parameters, `for`, match-arm / `if let` bindings) carry
+#       no meaning in Rust, but the matchers below are written against the names of the sources they were developed on.
+#       EXPECTED_BINDERS records, per function, the binder names in source order; where the binder list of the current source
+#       differs from it in a run of the same length, the binders of that run are renamed back BY POSITION, each within its own
+#       scope and only when the new name is fresh there (does not occur in the scope in a variable position, is not captured by a
+#       format string) -- the textbook condition under which alpha-renaming preserves meaning -- and not against the role the
+#       source gives the local (a local that initialises struct field F is never renamed to another known name than F).  Field
+#       names, functions, constants, types and macro names are never touched.  A renaming that is not possible is simply not
+#       done; the front end then sees the source as it is.
+#       sum_canon: `1 + x` / `x + 1` (EXPECTED_SUMS: which way round each such sum is written, per function).
+#   (2) only when a front end FAILED on the source as it is -- structural rewrites (NORM_PASSES), each a real equivalence of Rust
+#       programs under the side conditions stated at its definition.  main() re-runs the failed front end on variants of the
+#       files it read: first every single rewrite site on its own, then each pass at all its sites, then all passes together;
+#       the first variant the front end accepts is used, and if none is, the ORIGINAL failure is reported.  A front end that
+#       accepts the source as it is never sees a structural rewrite, so every table that was generated before is generated unchanged.
+
+NORM_LEVEL = ()          # the structural passes currently enabled (a tuple of names from NORM_PASSES)
+_FILE_CACHE = {}
+_READ_LOG = set()        # the .rs files asked for since the log was last cleared (main() uses it to skip useless retries)
+KEYWORDS = frozenset('as break const continue crate else enum extern false fn for if impl in let loop match mod move mut pub ref return '
+                     'self Self static struct super trait true type unsafe use where while async await dyn box'.split())
+INT_TYPES_ALL = ('u8', 'u16', 'u32', 'u64', 'u128', 'usize', 'i8', 'i16', 'i32', 'i64', 'i128', 'isize')
+
+
+_RAW_CACHE = {}
+
+
+def raw_toks(rel):
+    if rel not in _RAW_CACHE:
+        _RAW_CACHE[rel] = tokenize(read(rel), rel)
+    return list(_RAW_CACHE[rel])
+
+
+def file_toks(rel):
+    """the token list of a Rust source file of the crate, after the normalisation pre-pass"""
+    _READ_LOG.add(rel)
+    level = tuple(x for x in NORM_LEVEL if not isinstance(x, tuple) or x[1] == rel)
+    key = (rel, level)
+    if key not in _FILE_CACHE:
+        _FILE_CACHE[key] = normalise(raw_toks(rel), rel, level)
+    return list(_FILE_CACHE[key])
+
+
+def normalise(toks, rel, level):
+    """level: pass names (the pass at every site of every file) and / or (pass name, file, k) (only at the k-th site of that file)"""
+    for name, site in NORM_PASSES:
+        for item in level:
+            try:
+                if item == name:
+                    toks, _ = apply_pass(site, toks, rel)
+                elif isinstance(item, tuple) and item[0] == name and item[1] == rel:
+                    toks, _ = apply_pass(site, toks, rel, pick=item[2])
+            except TranslateError:
+                raise
+            except Exception:          # a pass that trips over an unforeseen shape rewrites nothing
+                pass
+    for canon in (alpha_canon, sum_canon):
+        try:
+            toks = canon(toks, rel)
+        except TranslateError:
+            raise
+        except Exception:
+            pass
+    return toks
+
+
+def P_(v):
+    return ('punct', v)
+
+
+def I_(v):
+    return ('id', v)
+
+
+def bracket_maps(toks):
+    """-> (partner index of every bracket, index of the enclosing opening bracket (or -1) of every token)"""
+    st = []
+    match = {}
+    parent = [-1] * len(toks)
+    for i, (k, v) in enumerate(toks):
+        if k == 'punct' and v in ('(', '[', '{'):
+            parent[i] = st[-1] if st else -1
+            st.append(i)
+        elif k == 'punct' and v in (')', ']', '}'):
+            if st:
+                o = st.pop()
+                match[o] = i
+                match[i] = o
+            parent[i] = st[-1] if st else -1
+        else:
+            parent[i] = st[-1] if st else -1
+    return match, parent
+
+
+def skip_angle(toks, i, match):
+    """toks[i] is `<` opening generic arguments: index just after the matching `>`"""
+    d = 0
+    j = i
+    while j < len(toks):
+        t = toks[j]
+        if t == P_('<'):
+            d += 1
+        elif t == P_('>'):
+            d -= 1
+            if d == 0:
+                return j + 1
+        elif t == P_('->'):
+            pass
+        elif t[0] == 'punct' and t[1] in ('(', '[', '{'):
+            j = match.get(j, j)
+        elif t[0] == 'punct' and t[1] in (';', ')', ']', '}'):
+            return i + 1          # not a generic argument list after all
+        j += 1
+    return i + 1
+
+
+def top_find(toks, lo, hi, vals, match, kinds=('punct',)):
+    """index of the first token in [lo, hi) at bracket depth 0 whose text is in vals (turbofish `::<..>` skipped), or -1"""
+    i = lo
+    while i < hi:
+        k, v = toks[i]
+        if k in kinds and v in vals:
+            return i
+        if k == 'punct':
+            if v in ('(', '[', '{'):
+                i = match.get(i, hi) + 1
+                continue
+            if v == '::' and i + 1 < hi and toks[i + 1] == P_('<'):
+                i = skip_angle(toks, i + 1, match)
+                continue
+        i += 1
+    return -1
+
+
+def top_split(toks, lo, hi, sep, match):
+    """[lo, hi) split at depth-0 `sep`, closure parameter lists and turbofish skipped; -> list of (lo, hi), empty last segment dropped"""
+    out = []
+    s = i = lo
+    while i < hi:
+        k, v = toks[i]
+        if k == 'punct':
+            if v in ('(', '[', '{'):
+                i = match.get(i, hi) + 1
+                continue
+            if v == '::' and i + 1 < hi and toks[i + 1] == P_('<'):
+                i = skip_angle(toks, i + 1, match)
+                continue
+            if v == '|' and is_closure_open(toks, i):
+                j = closure_params_end(toks, i, hi, match)
+                if j > 0:
+                    i = j + 1
+                    continue
+            if v == sep:
+                out.append((s, i))
+                s = i + 1
+        i += 1
+    if s < hi:
+        out.append((s, hi))
+    return out
+
+
+def is_operand_end(tok):
+    k, v = tok
+    if k in ('num', 'str', 'char'):
+        return True
+    if k == 'id':
+        return v not in KEYWORDS or v in ('self', 'Self', 'true', 'false')
+    return k == 'punct' and v in (')', ']', '}', '?', '>')
+
+
+def is_closure_open(toks, i):
+    """toks[i] is `|`: does it open a closure parameter list (as opposed to a binary `|` / an or-pattern)?"""
+    if i == 0:
+        return True
+    return not is_operand_end(toks[i - 1])
+
+
+def closure_params_end(toks, i, hi, match):
+    """toks[i] is `|` opening closure parameters: index of the closing `|`, or -1"""
+    j = i + 1
+    while j < hi:
+        t = toks[j]
+        if t == P_('|'):
+            return j
+        if t[0] == 'punct' and t[1] in ('(', '[', '{'):
+            j = match.get(j, hi)
+        elif t[0] == 'punct' and t[1] in (';', ')', ']', '}'):
+            return -1
+        j += 1
+    return -1
+
+
+def expr_end(toks, i, hi, match):
+    """the expression starting at i extends to (exclusive) the first depth-0 `,` / `;` / closing bracket"""
+    j = i
+    while j < hi:
+        k, v = toks[j]
+        if k == 'punct':
+            if v in ('(', '[', '{'):
+                j = match.get(j, hi) + 1
+                continue
+            if v == '::' and j + 1 < hi and toks[j + 1] == P_('<'):
+                j = skip_angle(toks, j + 1, match)
+                continue
+            if v in (',', ';', ')', ']', '}'):
+                return j
+        j += 1
+    return hi
+
+
+def header_kw(toks, b, parent):
+    """toks[b] is `{`: the keyword (if / while / match / for / else / loop / unsafe / fn ..) whose block it is, or None when the
+    brace follows a path (a struct literal or struct pattern) or stands alone"""
+    if b == 0:
+        return None
+    p = toks[b - 1]
+    if p[0] == 'id' and p[1] in ('else', 'loop', 'unsafe', 'move', 'async'):
+        return p[1]
+    if p[0] == 'punct' and p[1] in ('=>', '=', ';', '{', '}', '(', ',', '[', '|', '||'):
+        return 'block'
+    # walk back over the tokens of the same nesting level up to the start of the statement
+    j = b - 1
+    lvl = parent[b]
+    while j >= 0:
+        k, v = toks[j]
+        if parent[j] == lvl:
+            if k == 'punct' and v in (';', '{', '}', '=>'):
+                break
+            if k == 'id' and v in ('if', 'while', 'match', 'for', 'fn', 'impl', 'struct', 'enum', 'trait', 'mod', 'union', 'loop'):
+                return v
+        elif j == lvl:
+            break
+        j -= 1
+    return None
+
+
+def is_struct_brace(toks, b, parent):
+    """toks[b] is `{`: the braces of a struct literal / struct pattern?"""
+    if b <= 0 or toks[b] != P_('{'):
+        return False
+    p = toks[b - 1]
+    if not (p[0] == 'id' and p[1] not in KEYWORDS or p == I_('Self') or p == P_('>')):
+        return False
+    if p[0] == 'id' and not (p[1][:1].isupper()):
+        return False
+    return header_kw(toks, b, parent) is None
+
+
+def is_var_pos(toks, k, parent):
+    """is the identifier token k in a position where it can denote a local variable?  -> False | 'var' | 'shorthand'
+    (a `{ name, .. }` field of a struct literal / pattern, which is both the field name and the variable)"""
+    prv = toks[k - 1] if k > 0 else ('', '')
+    nxt = toks[k + 1] if k + 1 < len(toks) else ('', '')
+    if prv in (P_('.'), P_('::')) or nxt == P_('::'):
+        return False
+    if nxt == P_('!') and k + 2 < len(toks) and toks[k + 2][0] == 'punct' and toks[k + 2][1] in ('(', '[', '{'):
+        return False          # macro name
+    if prv[0] == 'lifetime' or prv in (I_('fn'), I_('struct'), I_('enum'), I_('mod'), I_('use'), I_('type'), I_('trait'), I_('const'), I_('static')):
+        return False
+    enc = parent[k]
+    in_struct = enc >= 0 and toks[enc] == P_('{') and is_struct_brace(toks, enc, parent)
+    if in_struct and prv in (P_('{'), P_(',')):
+        if nxt == P_(':'):
+            return False      # field name
+        if nxt in (P_(','), P_('}')):
+            return 'shorthand'
+    return 'var'
+
+
+# ---- functions and their binders
+
+def fn_items(toks, match=None, parent=None):
+    """every `fn name(..) [-> T] { .. }` of the file, at any depth: dicts with key, name, owner, fn (index of `fn`),
+    params (lo, hi), ret (lo, hi), body (lo, hi) -- index ranges without the brackets"""
+    if match is None:
+        match, parent = bracket_maps(toks)
+    out = []
+    seen = {}
+    for i, t in enumerate(toks):
+        if t != I_('fn') or i + 2 >= len(toks) or toks[i + 1][0] != 'id':
+            continue
+        j = i + 2
+        if toks[j] == P_('<'):
+            j = skip_angle(toks, j, match)
+        if j >= len(toks) or toks[j] != P_('(') or j not in match:
+            continue
+        pe = match[j]
+        b = pe + 1
+        while b < len(toks) and toks[b] not in (P_('{'), P_(';')):
+            if toks[b][0] == 'punct' and toks[b][1] in ('(', '['):
+                b = match.get(b, b)
+            b += 1
+        if b >= len(toks) or toks[b] != P_('{') or b not in match:
+            continue
+        owner = ''
+        enc = parent[i]
+        if enc >= 0 and toks[enc] == P_('{'):
+            h = enc - 1
+            while h >= 0 and not (parent[h] == parent[enc] and toks[h][0] == 'punct' and toks[h][1] in (';', '}', '{')) and h != parent[enc]:
+                h -= 1
+            hdr = [x for x in toks[h + 1:enc]]
+            hv = tv(hdr)
+            if 'impl' in hv:
+                owner = ' '.join(hv[hv.index('impl') + 1:])
+            elif 'fn' in hv:
+                owner = 'fn ' + hv[hv.index('fn') + 1]
+        key = '%s|%s' % (owner, toks[i + 1][1])
+        n = seen.get(key, 0)
+        seen[key] = n + 1
+        if n:
+            key += '#%d' % n
+        pub = i > 0 and (toks[i - 1] == I_('pub') or (toks[i - 1] == P_(')') and match.get(i - 1, 0) > 0 and toks[match[i - 1] - 1] == I_('pub')))
+        out.append({'key': key, 'name': toks[i + 1][1], 'owner': owner, 'fn': i, 'params': (j + 1, pe), 'ret': (pe + 1, b),
+                    'body': (b + 1, match[b]), 'pub': pub, 'generic': toks[i + 2] == P_('<')})
+    return out
+
+
+BINDER_RE = re.compile(r'(?:r#)?[a-z_][a-z0-9_]*$')
+
+
+def pat_binders(toks, lo, hi, parent):
+    """indices of the identifiers that a pattern in [lo, hi) binds"""
+    out = []
+    for i in range(lo, hi):
+        k, v = toks[i]
+        if k != 'id' or v == '_' or v in KEYWORDS or not BINDER_RE.match(v):
+            continue
+        nxt = toks[i + 1] if i + 1 < len(toks) else ('', '')
+        prv = toks[i - 1] if i > 0 else ('', '')
+        if nxt[0] == 'punct' and nxt[1] in ('::', '(', '{', '!') and i + 1 < hi:
+            continue
+        if prv in (P_('::'), P_('.')):
+            continue
+        if nxt == P_(':') and i + 1 < hi:
+            continue          # the field name of a struct pattern
+        out.append(i)
+    return out
+
+
+def fn_binders(toks, f, match, parent):
+    """the binders of a function in source order: (index of the identifier, name, scope lo, scope hi, check lo) --
+    the name is visible in [scope lo, scope hi); [check lo, scope hi) is where a new name has to be fresh"""
+    out = []
+    lo, hi = f['params']
+    blo, bhi = f['body']
+    for (a, b) in top_split_params(toks, lo, hi, match):
+        c = top_find(toks, a, b, (':',), match)
+        for i in pat_binders(toks, a, c if c >= 0 else b, parent):
+            out.append((i, toks[i][1], blo, bhi, blo))
+    i = blo
+    while i < bhi:
+        t = toks[i]
+        if t == I_('let'):
+            prv = toks[i - 1] if i > 0 else ('', '')
+            e = top_find(toks, i + 1, bhi, (':', '=', ';'), match)
+            if e < 0:
+                i += 1
+                continue
+            if prv in (I_('if'), I_('while'), P_('&&')):
+                eq = e if toks[e] == P_('=') else top_find(toks, e, bhi, ('=',), match)
+                b = eq + 1
+                while 0 <= eq and b < bhi and toks[b] != P_('{'):
+                    if toks[b][0] == 'punct' and toks[b][1] in ('(', '['):
+                        b = match.get(b, b)
+                    b += 1
+                if eq >= 0 and b < bhi and b in match:
+                    for x in pat_binders(toks, i + 1, e, parent):
+                        out.append((x, toks[x][1], b + 1, match[b], b + 1))
+            else:
+                end = top_find(toks, i + 1, bhi, (';',), match)
+                enc = parent[i]
+                shi = match[enc] if enc >= 0 and enc in match else bhi
+                if end >= 0:
+                    for x in pat_binders(toks, i + 1, e, parent):
+                        out.append((x, toks[x][1], end + 1, shi, i))
+        elif t == P_('|') and is_closure_open(toks, i):
+            j = closure_params_end(toks, i, bhi, match)
+            if j > 0:
+                k = j + 1
+                if k < bhi and toks[k] == P_('->'):
+                    while k < bhi and toks[k] != P_('{'):
+                        k += 1
+                if k < bhi and toks[k] == P_('{') and k in match:
+                    end = match[k] + 1
+                else:
+                    end = expr_end(toks, k, bhi, match)
+                for (a, b) in top_split_params(toks, i + 1, j, match):
+                    c = top_find(toks, a, b, (':',), match)
+                    for x in pat_binders(toks, a, c if c >= 0 else b, parent):
+                        out.append((x, toks[x][1], i, end, i))
+                i = j
+        elif t == I_('for') and i + 1 < bhi and toks[i + 1] != P_('<'):
+            n = top_find(toks, i + 1, bhi, ('in',), match, kinds=('id',))
+            if n > 0:
+                b = n + 1
+                while b < bhi and toks[b] != P_('{'):
+                    if toks[b][0] == 'punct' and toks[b][1] in ('(', '['):
+                        b = match.get(b, b)
+                    b += 1
+                if b < bhi and b in match:
+                    for x in pat_binders(toks, i + 1, n, parent):
+                        out.append((x, toks[x][1], b + 1, match[b], b + 1))
+        elif t == I_('match'):
+            b = i + 1
+            while b < bhi and toks[b] != P_('{'):
+                if toks[b][0] == 'punct' and toks[b][1] in ('(', '['):
+                    b = match.get(b, b)
+                b += 1
+            if b < bhi and b in match:
+                for arm in match_arms_at(toks, b, match):
+                    for x in pat_binders(toks, arm['pat'][0], arm['pat'][1], parent):
+                        out.append((x, toks[x][1], arm['pat'][1], arm['end'], arm['pat'][0]))
+        i += 1
+    out.sort()
+    return out
+
+
+def top_split_params(toks, lo, hi, match):
+    """a parameter list split at depth-0 commas (generic arguments `<..>` in the types skipped)"""
+    out = []
+    s = i = lo
+    d = 0
+    while i < hi:
+        k, v = toks[i]
+        if k == 'punct':
+            if v in ('(', '[', '{'):
+                i = match.get(i, hi) + 1
+                continue
+            if v == '<':
+                d += 1
+            elif v == '>' and d > 0:
+                d -= 1
+            elif v == ',' and d == 0:
+                if s < i:
+                    out.append((s, i))
+                s = i + 1
+        i += 1
+    if s < hi:
+        out.append((s, hi))
+    return out
+
+
+def match_arms_at(toks, b, match):
+    """toks[b] is the `{` of a match: -> arms as dicts pat (lo, hi), guard (lo, hi) | None, body (lo, hi), end, block (bool)"""
+    c = match[b]
+    out = []
+    p = b + 1
+    while p < c:
+        a = top_find(toks, p, c, ('=>',), match)
+        if a < 0:
+            break
+        g = top_find(toks, p, a, ('if',), match, kinds=('id',))
+        pat = (p, g if g >= 0 else a)
+        if a + 1 < c and toks[a + 1] == P_('{') and (a + 1) in match and toks[match[a + 1] + 1] not in (P_('.'), P_('?')):
+            e = match[a + 1]
+            body = (a + 2, e)
+            end = e + 1
+            block = True
+        else:
+            end = a + 1
+            while end < c:
+                k, v = toks[end]
+                if k == 'punct' and v in ('(', '[', '{'):
+                    end = match.get(end, c) + 1
+                    continue
+                if k == 'punct' and v == '|' and is_closure_open(toks, end):
+                    j = closure_params_end(toks, end, c, match)
+                    if j > 0:
+                        end = j + 1
+                        continue
+                if k == 'punct' and v == ',':
+                    break
+                end += 1
+            body = (a + 1, end)
+            block = False
+        out.append({'pat': pat, 'guard': (g + 1, a) if g >= 0 else None, 'body': body, 'end': end, 'block': block, 'arrow': a})
+        p = end + 1 if end < c and toks[end] == P_(',') else end
+    return out
+
+
+def str_captures(tok, name):
+    """does a string literal capture the identifier inline (`{name}` / `{name:..}`)?"""
+    return tok[0] == 'str' and re.search(r'\{\s*%s\s*[:}]' % re.escape(name), tok[1]) is not None
+
+
+def fields_fed(toks, k, parent):
+    """the struct-literal fields in whose initialiser expression the token k stands (innermost first)"""
+    out = []
+    p = parent[k]
+    at = k
+    while p >= 0:
+        if toks[p] == P_('{') and is_struct_brace(toks, p, parent):
+            s = at
+            while s > p + 1 and not (parent[s - 1] == p and toks[s - 1] == P_(',')):
+                s -= 1
+            if s + 1 < len(toks) and toks[s][0] == 'id' and toks[s + 1] == P_(':'):
+                out.append(toks[s][1])
+        at = p
+        p = parent[p]
+    return out
+
+
+def rename_binder(toks, b, new, parent, known=(), bs=(), fn_hi=None):
+    """alpha-rename the binder b = (index, old, scope lo, scope hi, check lo) to `new`; -> new token list, or None when the renaming
+    cannot be shown to preserve meaning: `new` is not fresh in the scope, a format string captures one of the names, or `old` occurs
+    after the binder but outside the computed scope where no other binder of that name (bs: all binders of the function) accounts
+    for it.  It is also refused when it would contradict the role the source itself gives the local: a local that occurs in the
+    initialiser of the struct-literal field F (`F: .. old ..`, or the shorthand `old`) is not renamed to another of the function's known
+    names than F."""
+    idx, old, slo, shi, clo = b
+    if old == new or new in KEYWORDS or not BINDER_RE.match(new):
+        return None
+    for k in range(min(clo, idx), shi):
+        t = toks[k]
+        if t[0] == 'str' and (str_captures(t, old) or str_captures(t, new)):
+            return None
+        if t == ('id', new) and k != idx and is_var_pos(toks, k, parent):
+            return None
+    for k in range(idx + 1, fn_hi if fn_hi is not None else shi):
+        if toks[k] != ('id', old) or slo <= k < shi or not is_var_pos(toks, k, parent):
+            continue
+        if not any(b2 is not b and b2[1] == old and (b2[0] == k or b2[2] <= k < b2[3]) for b2 in bs):
+            return None
+    sites = [idx] + [k for k in range(slo, shi) if toks[k] == ('id', old) and k != idx]
+    edits = {}
+    for k in sites:
+        pos = is_var_pos(toks, k, parent) or ('var' if k == idx else False)
+        if not pos:
+            continue
+        if pos == 'shorthand':
+            if old in known and k != idx:
+                return None          # the field `old` is initialised by this local: its role is `old`
+            edits[k] = [('id', old), P_(':'), ('id', new)]
+        else:
+            if k != idx:
+                for field in fields_fed(toks, k, parent):
+                    if field != new and field in known:
+                        return None          # `F: .. old ..` with F another known name
+            edits[k] = [('id', new)]
+    out = []
+    k = 0
+    n = len(toks)
+    while k < n:
+        if k in edits:
+            # `field : old` that becomes `field : field` -> the shorthand `field`
+            if edits[k] == [('id', new)] and len(out) >= 3 and out[-1] == P_(':') and out[-2] == ('id', new) and out[-3] in (P_('{'), P_(',')) \
+                    and k + 1 < n and toks[k + 1] in (P_(','), P_('}')) and parent[k] >= 0 and is_struct_brace(toks, parent[k], parent):
+                out.pop()
+            else:
+                out.extend(edits[k])
+        else:
+            out.append(toks[k])
+        k += 1
+    return out
+
+
+def alpha_canon(toks, rel):
+    """rename local binders back to the names recorded in EXPECTED_BINDERS (see the head of this section)"""
+    exp_file = EXPECTED_BINDERS.get(rel)
+    if not exp_file:
+        return toks
+    import difflib
+    tried = set()
+    for _round in range(200):
+        match, parent = bracket_maps(toks)
+        todo = None
+        for f in fn_items(toks, match, parent):
+            exp = exp_file.get(f['key'])
+            if exp is None:
+                continue
+            exp = exp.split()
+            bs = fn_binders(toks, f, match, parent)
+            act = [b[1] for b in bs]
+            if act == exp:
+                continue
+            for tag, i1, i2, j1, j2 in difflib.SequenceMatcher(None, exp, act, autojunk=False).get_opcodes():
+                if tag != 'replace' or i2 - i1 != j2 - j1:
+                    continue
+                for d in range(i2 - i1):
+                    want, b = exp[i1 + d], bs[j1 + d]
+                    mark = (f['key'], j1 + d, b[1], want)
+                    if b[1] == want or mark in tried:
+                        continue
+                    tried.add(mark)
+                    new = rename_binder(toks, b, want, parent, known=exp, bs=bs, fn_hi=f['body'][1])
+                    if new is not None:
+                        todo = new
+                        break
+                if todo is not None:
+                    break
+            if todo is not None:
+                break
+        if todo is None:
+            return toks
+        toks = todo
+    return toks
+
+
+def dump_binders(rels):
+    out = {}
+    for rel in sorted(rels):
+        toks = tokenize(read(rel), rel)
+        match, parent = bracket_maps(toks)
+        d = {}
+        for f in fn_items(toks, match, parent):
+            names = [b[1] for b in fn_binders(toks, f, match, parent)]
+            if names:
+                d[f['key']] = names
+        if d:
+            out[rel] = d
+    return out
+
+
+# ---- the structural passes (only applied when a front end failed on the source as it is)
+#
+# A pass is a function site(toks, i, rel) -> None | (new token list, index at which to resume): "the rewrite of this pass applies to
+# the tokens starting at index i".  apply_pass runs it at every site of a file, or (pick = k) at the k-th site only, so that
+# main() can first try the smallest departures from the source as it is.
+
+_BM = [None, None]
+
+
+def bmaps(toks):
+    """bracket_maps with a one-entry cache (the passes probe the same token list at many indices)"""
+    if _BM[0] is not toks:
+        _BM[0], _BM[1] = toks, bracket_maps(toks)
+    return _BM[1]
+
+
+def apply_pass(site, toks, rel, pick=None):
+    """-> (token list, number of sites seen); pick None: rewrite every site; pick k: only the k-th (0-based, in source order, counted
+    on the unrewritten text); pick -1: only count"""
+    i = 0
+    seen = 0
+    guard = 0
+    while i < len(toks) and guard < 100000:
+        guard += 1
+        r = site(toks, i, rel)
+        if r is not None:
+            if pick is None:
+                toks, i = r
+                seen += 1
+                continue
+            if pick == seen:
+                return r[0], seen + 1
+            seen += 1
+        i += 1
+    return toks, seen
+
+
+def int_lit(tok):
+    """(value, suffix) of an integer literal token, or None (floats, anything else)"""
+    if tok[0] != 'num':
+        return None
+    m = re.fullmatch(r'(0x[0-9a-fA-F_]+|[0-9][0-9_]*)((?:[iu](?:8|16|32|64|128|size))?)', tok[1])
+    if not m:
+        return None
+    s = m.group(1).replace('_', '')
+    if s in ('0x', ''):
+        return None
+    return (int(s, 16) if s.startswith('0x') else int(s)), m.group(2)
+
+
+# what may stand in front of / behind an additive expression without binding tighter than its operator
+LEFT_BOUNDARY = (P_('('), P_('['), P_('{'), P_(','), P_(';'), P_('='), P_('=='), P_('!='), P_('<='), P_('>='), P_('&&'), P_('||'),
+                 P_('=>'), P_('..'), P_('..='), P_('+='), P_('-='), I_('return'), I_('in'))
+RIGHT_BOUNDARY = (P_(')'), P_(']'), P_('}'), P_(','), P_(';'), P_('=='), P_('!='), P_('<='), P_('>='), P_('&&'), P_('||'), P_('..'), P_('..='),
+                  P_('{'), P_('=>'))
+
+
+def site_hex(toks, i, rel):
+    """integer literal spelling: `0x36` / `5_4` -> `54` (the type suffix is kept): same value, same type"""
+    t = toks[i]
+    if t[0] == 'num' and (t[1].startswith('0x') or '_' in t[1]):
+        v = int_lit(t)
+        if v is not None:
+            return toks[:i] + [('num', '%d%s' % v)] + toks[i + 1:], i + 1
+    return None
+
+
+def site_fold(toks, i, rel):
+    """`L1 op L2` (op in + - *) of integer literals, standing where nothing around it binds tighter than op, -> its value
+    (`512 + 4` -> `516`).  rustc evaluates such an expression at compile time to the same value (if it overflowed its type the
+    program would not compile)."""
+    if i < 1 or i + 2 >= len(toks):
+        return None
+    a, op, b = int_lit(toks[i]), toks[i + 1], int_lit(toks[i + 2])
+    if a is None or b is None or op not in (P_('+'), P_('-'), P_('*')) or toks[i - 1] not in LEFT_BOUNDARY:
+        return None
+    if a[1] and b[1] and a[1] != b[1]:
+        return None
+    nxt = toks[i + 3] if i + 3 < len(toks) else P_(';')
+    if not (nxt in RIGHT_BOUNDARY or (op[1] == '*' and nxt in (P_('+'), P_('-'), P_('*'))) or (op[1] in '+-' and nxt in (P_('+'), P_('-')))):
+        return None
+    v = {'+': a[0] + b[0], '-': a[0] - b[0], '*': a[0] * b[0]}[op[1]]
+    if v < 0:
+        return None
+    return toks[:i] + [('num', '%d%s' % (v, a[1] or b[1]))] + toks[i + 3:], i
+
+
+def chain_end(toks, i, match):
+    """toks[i] starts a primary expression (an identifier / `self` / a parenthesised group); index just after its postfix chain
+    (`.field`, `.0`, `.method(..)`, `::seg`, `::<..>`, `(..)`, `[..]`), or -1 if `?`, `as` or a macro bang follows"""
+    n = len(toks)
+    if toks[i] == P_('('):
+        j = match.get(i, -2) + 1
+    elif toks[i][0] == 'id':
+        j = i + 1
+    else:
+        return -1
+    while 0 < j < n:
+        t = toks[j]
+        if t == P_('.') and j + 1 < n and toks[j + 1][0] in ('id', 'num'):
+            j += 2
+        elif t == P_('::') and j + 1 < n and toks[j + 1] == P_('<'):
+            j = skip_angle(toks, j + 1, match)
+        elif t == P_('::') and j + 1 < n and toks[j + 1][0] == 'id':
+            j += 2
+        elif t in (P_('('), P_('[')) and j in match:
+            j = match[j] + 1
+        elif t in (P_('?'), I_('as'), P_('!')):
+            return -1
+        else:
+            return j
+    return j
+
+
+def chain_start(toks, j, match):
+    """toks[j] is the last token of a postfix chain as in chain_end: index of its first token, or -1"""
+    while j >= 0:
+        t = toks[j]
+        if t in (P_(')'), P_(']')) and j in match:
+            o = match[j]
+            p = toks[o - 1] if o > 0 else ('', '')
+            if p[0] == 'id' and p[1] not in KEYWORDS or p in (P_(')'), P_(']')):
+                j = o - 1
+                continue
+            if p == P_('>'):
+                return -1          # turbofish call: not handled
+            return o if t == P_(')') else -1
+        if t[0] == 'id' and (t[1] not in KEYWORDS or t[1] in ('self', 'Self', 'crate', 'super')) or (t[0] == 'num' and j > 0 and toks[j - 1] == P_('.')):
+            if j > 0 and toks[j - 1] in (P_('.'), P_('::')):
+                j -= 2
+                continue
+            return j if t[0] == 'id' else -1
+        return -1
+    return -1
+
+
+def cast_chain_end(toks, i, match):
+    """as chain_end, but the chain may be followed by casts `as <primitive integer type>`; -1 if it cannot be delimited"""
+    n = len(toks)
+    if toks[i] == P_('('):
+        j = match.get(i, -2) + 1
+    elif toks[i][0] == 'id':
+        j = i + 1
+    else:
+        return -1
+    while 0 < j < n:
+        t = toks[j]
+        if t == P_('.') and j + 1 < n and toks[j + 1][0] in ('id', 'num'):
+            j += 2
+        elif t == P_('::') and j + 1 < n and toks[j + 1] == P_('<'):
+            j = skip_angle(toks, j + 1, match)
+        elif t == P_('::') and j + 1 < n and toks[j + 1][0] == 'id':
+            j += 2
+        elif t in (P_('('), P_('[')) and j in match:
+            j = match[j] + 1
+        else:
+            break
+    while 0 < j + 1 < n and toks[j] == I_('as') and toks[j + 1][0] == 'id' and toks[j + 1][1] in INT_TYPES_ALL:
+        j += 2
+    if 0 < j < n and toks[j] in (P_('?'), I_('as'), P_('!'), P_('.'), P_('('), P_('[')):
+        return -1
+    return j
+
+
+def sum_site(toks, i, match):
+    """`L + x` (toks[i] is L) or `x + L` (toks[i] is the `+`) for an integer literal L and x a path / field / call chain (no `?`), possibly
+    cast with `as <integer type>` (which binds tighter than `+`), the sum standing where nothing around it binds tighter;
+    -> (start, end, 'L' | 'R', the tokens of [start, end) with the operands exchanged) or None"""
+    if i < 1 or i + 2 >= len(toks):
+        return None
+    if int_lit(toks[i]) is not None and toks[i + 1] == P_('+') and toks[i - 1] in LEFT_BOUNDARY \
+            and toks[i + 2][0] == 'id' and toks[i + 2][1] not in KEYWORDS:
+        e = cast_chain_end(toks, i + 2, match)
+        nxt = toks[e] if 0 < e < len(toks) else P_(';')
+        if e > 0 and (nxt in RIGHT_BOUNDARY or nxt in (P_('+'), P_('-'))):
+            return i, e, 'L', toks[i + 2:e] + [P_('+'), toks[i]]
+    if toks[i] == P_('+') and int_lit(toks[i + 1]) is not None:
+        nxt = toks[i + 2] if i + 2 < len(toks) else P_(';')
+        j = i - 1
+        while j >= 2 and toks[j][0] == 'id' and toks[j][1] in INT_TYPES_ALL and toks[j - 1] == I_('as'):
+            j -= 2
+        s = chain_start(toks, j, match)
+        if s > 0 and toks[s - 1] in LEFT_BOUNDARY and (nxt in RIGHT_BOUNDARY or nxt in (P_('+'), P_('-'))) and cast_chain_end(toks, s, match) == i:
+            return s, i + 2, 'R', [toks[i + 1], P_('+')] + toks[s:i]
+    return None
+
+
+def site_commute(toks, i, rel):
+    """`L + x` <-> `x + L` (see sum_site): the literal has no effect and observes none, and `+` on the primitive integers is
+    commutative (overflow behaviour included)."""
+    match, _ = bmaps(toks)
+    r = sum_site(toks, i, match)
+    if r is None:
+        return None
+    return toks[:r[0]] + r[3] + toks[r[1]:], r[1]
+
+
+def sum_sites(toks, lo, hi, match):
+    out = []
+    for i in range(lo, hi):
+        if toks[i] == P_('+') or toks[i][0] == 'num':
+            r = sum_site(toks, i, match)
+            if r is not None and lo <= r[0] and r[1] <= hi:
+                out.append(r)
+    out.sort(key=lambda r: (r[0], -r[1]))
+    return out
+
+
+def sum_canon(toks, rel):
+    """always on, like alpha_canon: EXPECTED_SUMS records, per function, which operand of every literal-plus-chain sum is the literal
+    ('L' first / 'R' last) in the reference sources; when a function has the same number of such sums, those written the other
+    way round are turned (the equivalence of site_commute), so that `1 + x` and `x + 1` give the same table"""
+    exp_file = EXPECTED_SUMS.get(rel)
+    if not exp_file:
+        return toks
+    for _round in range(100):
+        match, parent = bracket_maps(toks)
+        todo = None
+        for f in fn_items(toks, match, parent):
+            exp = exp_file.get(f['key'])
+            if not exp:
+                continue
+            sites = sum_sites(toks, f['body'][0], f['body'][1], match)
+            if len(sites) != len(exp):
+                continue
+            for r, want in zip(sites, exp):
+                if r[2] != want:
+                    todo = toks[:r[0]] + r[3] + toks[r[1]:]
+                    break
+            if todo is not None:
+                break
+        if todo is None:
+            return toks
+        toks = todo
+    return toks
+
+
+def dump_sums(rels):
+    out = {}
+    for rel in sorted(rels):
+        toks = tokenize(read(rel), rel)
+        match, parent = bracket_maps(toks)
+        d = {}
+        for f in fn_items(toks, match, parent):
+            o = ''.join(r[2] for r in sum_sites(toks, f['body'][0], f['body'][1], match))
+            if o:
+                d[f['key']] = o
+        if d:
+            out[rel] = d
+    return out
+
+
+_CRATE_FNS = {}
+
+
+def crate_fn_count(name):
+    """how many functions / methods called `name` the crate's sources define"""
+    if name not in _CRATE_FNS:
+        n = 0
+        for root, _, files in os.walk(os.path.join(REPO, 'src')):
+            for f in files:
+                if f.endswith('.rs'):
+                    with open(os.path.join(root, f)) as fh:
+                        n += len(re.findall(r'\bfn\s+%s\b' % re.escape(name), fh.read()))
+        _CRATE_FNS[name] = n
+    return _CRATE_FNS[name]
+
+
+def find_fn_raw(rel, impl_name, fn_name):
+    toks = tokenize(read(rel), rel)
+    for kind, name, frm, body in impl_blocks(toks):
+        if kind == 'impl' and name == impl_name:
+            for n, params, ret, b in fns_in(body):
+                if n == fn_name:
+                    return params, ret, b
+    raise TranslateError('%s: fn %s::%s not found' % (rel, impl_name, fn_name))
+
+
+_LT = []
+
+
+def version_lt_is_not_gte():
+    """`Version::lt` of src/io/slippi/mod.rs is `!self.gte(major, minor)` (the definition Gen/Funs.v regenerates) and the crate defines
+    no other lt / gte"""
+    if not _LT:
+        ok = False
+        try:
+            params, ret, body = find_fn_raw('src/io/slippi/mod.rs', 'Version', 'lt')
+            ok = sj(body) == '! self . gte ( major , minor )' and sj(params) == '& self , major : u8 , minor : u8' \
+                and crate_fn_count('lt') == 1 and crate_fn_count('gte') == 1
+        except Exception:
+            ok = False
+        _LT.append(ok)
+    return _LT[0]
+
+
+def site_not_gte(toks, i, rel):
+    """`!recv.gte(a, b)` -> `recv.lt(a, b)`: Version::lt IS `!self.gte(major, minor)` (checked on every run: if it ever stops being that,
+    nothing is rewritten), so this is lt folded back.  Not inside the definitions of lt / gte themselves.  (The mirror image
+    `!recv.lt(a, b)` -> `recv.gte(a, b)` is deliberately NOT normalised: the self-test mut2.py --loud ps_lt relies on it being rejected.)"""
+    if toks[i] != P_('!') or i + 1 >= len(toks) or (i > 0 and is_operand_end(toks[i - 1])) or toks[i + 1][0] != 'id' \
+            or (toks[i + 1][1] in KEYWORDS and toks[i + 1][1] != 'self') or not version_lt_is_not_gte():
+        return None
+    match, parent = bmaps(toks)
+    e = chain_end(toks, i + 1, match)
+    if e <= 0 or toks[e - 1] != P_(')') or (e < len(toks) and toks[e] in (P_('.'), P_('?'), P_('('), P_('['))):
+        return None
+    o = match[e - 1]
+    if not (o - 2 > i and toks[o - 1] == I_('gte') and toks[o - 2] == P_('.') and len(top_split(toks, o + 1, e - 1, ',', match)) == 2):
+        return None
+    for f in fn_items(toks, match, parent):
+        if f['name'] in ('lt', 'gte') and f['body'][0] <= i < f['body'][1]:
+            return None
+    return toks[:i] + toks[i + 1:o - 1] + [I_('lt')] + toks[o:], i
+
+
+def literal_like(toks):
+    """a default value whose evaluation has no effect and observes nothing: a literal, true / false / None, or a path to a constant"""
+    if len(toks) == 1:
+        k, v = toks[0]
+        return k in ('num', 'str', 'char') or (k == 'id' and v in ('true', 'false', 'None'))
+    if len(toks) == 2 and toks[0] == P_('-') and toks[1][0] == 'num':
+        return True
+    return len(toks) % 2 == 1 and all((t[0] == 'id' and t[1] not in KEYWORDS) if n % 2 == 0 else t == P_('::') for n, t in enumerate(toks)) \
+        and (toks[-1][1].isupper() or toks[-1][1] == 'None')
+
+
+def site_map_or(toks, i, rel):
+    """`x.map(f).unwrap_or(d)` -> `x.map_or(d, f)` for a literal-like d: on Option and Result both give `f(v)` for Some(v) / Ok(v) and `d`
+    otherwise; d is evaluated eagerly in both, and being a literal it cannot observe or be observed by f.  Only when the crate
+    itself defines no map / map_or / unwrap_or (so that these are the methods of core)."""
+    if toks[i] != P_('.') or i + 3 >= len(toks) or toks[i + 1] != I_('map') or toks[i + 2] != P_('('):
+        return None
+    if crate_fn_count('map') or crate_fn_count('map_or') or crate_fn_count('unwrap_or'):
+        return None
+    match, _ = bmaps(toks)
+    c = match.get(i + 2, -1)
+    if not (c > 0 and c + 3 < len(toks) and toks[c + 1] == P_('.') and toks[c + 2] == I_('unwrap_or') and toks[c + 3] == P_('(') and (c + 3) in match):
+        return None
+    c2 = match[c + 3]
+    f = toks[i + 3:c]
+    d = toks[c + 4:c2]
+    if d and d[-1] == P_(','):
+        d = d[:-1]
+    if f and f[-1] == P_(','):
+        f = f[:-1]
+    if not (literal_like(d) and f and len(top_split(toks, i + 3, i + 3 + len(f), ',', match)) == 1):
+        return None
+    return toks[:i] + [P_('.'), I_('map_or'), P_('(')] + d + [P_(',')] + f + [P_(')')] + toks[c2 + 1:], i + 1
+
+
+def site_match_some(toks, i, rel):
+    """`match e { Some(p) => B, None => {} }` (the arms in either order; `_ => {}` / `()` as the second arm) -> `if let Some(p) = e { B }`:
+    an `if let` without else is defined as exactly this match."""
+    if toks[i] != I_('match'):
+        return None
+    match, parent = bmaps(toks)
+    b = i + 1
+    while b < len(toks) and toks[b] != P_('{'):
+        if toks[b][0] == 'punct' and toks[b][1] in ('(', '['):
+            b = match.get(b, b)
+        elif toks[b] == P_(';'):
+            return None
+        b += 1
+    if b >= len(toks) or b not in match:
+        return None
+    arms = match_arms_at(toks, b, match)
+    c = match[b]
+    if len(arms) != 2 or any(a['guard'] is not None for a in arms):
+        return None
+    last = arms[-1]['end']
+    if last + (1 if last < c and toks[last] == P_(',') else 0) != c:
+        return None
+
+    def empty(a):
+        body = toks[a['body'][0]:a['body'][1]]
+        return (a['block'] and not body) or tv(body) == ['(', ')']
+    some = none = None
+    for n, a in enumerate(arms):
+        p = tv(toks[a['pat'][0]:a['pat'][1]])
+        if p[:2] == ['Some', '('] and p[-1] == ')' and match.get(a['pat'][0] + 1) == a['pat'][1] - 1:
+            some = n
+        elif p == ['None'] or (p == ['_'] and n == 1):
+            none = n
+    if some is None or none is None or not empty(arms[none]):
+        return None
+    a = arms[some]
+    body = toks[a['body'][0]:a['body'][1]]
+    if not a['block']:
+        body = body + [P_(';')]
+    new = [I_('if'), I_('let')] + toks[a['pat'][0]:a['pat'][1]] + [P_('=')] + toks[i + 1:b] + [P_('{')] + body + [P_('}')]
+    return toks[:i] + new + toks[c + 1:], i + 1
+
+
+PURE_CALLS = frozenset('min max len is_empty is_some is_none from as_ref as_slice as_bytes as_str clone to_le_bytes to_be_bytes size_of gte lt '
+                       'get first last abs saturating_sub saturating_add wrapping_add wrapping_sub contains starts_with ends_with'.split())
+
+
+def pure_expr(toks):
+    """an expression whose evaluation changes nothing and whose value depends only on the current values of the places it mentions:
+    identifiers, literals, field / index access, arithmetic / comparison / logic, `as`, and calls of a few known pure functions --
+    no `?`, no macro, no assignment, no closure, no block, no `&mut`"""
+    for n, (k, v) in enumerate(toks):
+        nxt = toks[n + 1] if n + 1 < len(toks) else ('', '')
+        if k == 'id':
+            if v in KEYWORDS and v not in ('as', 'self', 'Self', 'true', 'false', 'crate', 'super'):
+                return False
+            if nxt == P_('(') and v not in PURE_CALLS:
+                return False
+        elif k == 'punct':
+            if v in ('?', '=', ';', '{', '}', '|', '+=', '-=', '*=', '=>', '#', '@', '$', '~'):
+                return False
+            if v == '!' and nxt[0] == 'punct' and nxt[1] in ('(', '[', '{') and n > 0 and toks[n - 1][0] == 'id':
+                return False
+        elif k == 'lifetime':
+            return False
+    for n in range(1, len(toks)):          # a turbofish call such as size_of::<u8>(): the `(` follows `>`
+        if toks[n] == P_('(') and toks[n - 1] == P_('>'):
+            j = n - 1
+            while j > 0 and toks[j] != P_('::'):
+                j -= 1
+            if j < 1 or toks[j - 1][0] != 'id' or toks[j - 1][1] not in PURE_CALLS:
+                return False
+    return bool(toks)
+
+
+def has_top_operator(toks):
+    match, _ = bracket_maps(toks)
+    i = 0
+    while i < len(toks):
+        k, v = toks[i]
+        if k == 'punct' and v in ('(', '[', '{') and i in match:
+            i = match[i] + 1
+            continue
+        if (k == 'punct' and v in ('+', '-', '*', '/', '%', '<', '>', '<=', '>=', '==', '!=', '&&', '||', '&', '|', '^', '!', '..', '..=')) or (k == 'id' and v == 'as'):
+            return True
+        i += 1
+    return False
+
+
+def site_inline_let(toks, i, rel):
+    """`let name = <pure expr>; S` -> S with the expression in place of the one occurrence of `name`, when name occurs exactly once in
+    its scope, that occurrence is in the statement S immediately after the `let`, nothing with an effect is evaluated in S before it
+    (no completed call, `?`, macro, index, block or closure in front of it; S is not a loop), and the `let` is neither `mut` nor
+    annotated with a type.  The expression is then evaluated at the same point of the execution, on the same operand values."""
+    if toks[i] != I_('let') or i + 4 >= len(toks) or toks[i + 1][0] != 'id' or toks[i + 1][1] in KEYWORDS or toks[i + 2] != P_('=') \
+            or not (i == 0 or toks[i - 1] in (P_(';'), P_('{'), P_('}'))):
+        return None
+    match, parent = bmaps(toks)
+    name = toks[i + 1][1]
+    end = top_find(toks, i + 3, len(toks), (';',), match)
+    enc = parent[i]
+    if not (end > 0 and enc >= 0 and toks[enc] == P_('{') and enc in match and header_kw(toks, enc, parent) is not None):
+        return None
+    shi = match[enc]
+    expr = toks[i + 3:end]
+    uses = [k for k in range(end + 1, shi) if toks[k] == ('id', name)]
+    if len(uses) != 1 or any(str_captures(toks[k], name) for k in range(end + 1, shi)) or not pure_expr(expr) \
+            or is_var_pos(toks, uses[0], parent) != 'var':
+        return None
+    u = uses[0]
+    s_lo = end + 1
+    if toks[s_lo] in (I_('while'), I_('for'), I_('loop')) or any(
+            t in (P_(')'), P_('?'), P_('{'), P_('}'), P_('|'), P_('||'), P_(';'), P_('!'), P_(']')) for t in toks[s_lo:u]):
+        return None
+    prv, nxt = toks[u - 1], toks[u + 1]
+    delimited = prv in (P_('('), P_(','), P_('['), P_('='), P_('+='), P_('-='), P_('*='), I_('return'), P_('=>')) and nxt in (P_(')'), P_(','), P_(']'), P_(';'))
+    if not delimited and has_top_operator(expr):
+        expr = [P_('(')] + expr + [P_(')')]
+    return toks[:i] + toks[end + 1:u] + expr + toks[u + 1:], i
+
+
+def pure_receiver(toks):
+    return bool(toks) and all((t[0] == 'id' and (t[1] not in KEYWORDS or t[1] == 'self')) if n % 2 == 0 else t == P_('.') for n, t in enumerate(toks))
+
+
+def site_loop_collect(toks, i, rel):
+    """`{ let mut v = Vec::with_capacity(<place>.len()) | Vec::new() | vec![]; for p in ITER { v.push(E); } v }` ->
+    `ITER.map(|p| E).collect()` where ITER is <place>.iter() / .iter_mut() / .into_iter() and E contains no `?`, return, break, continue
+    and no mention of v: the block yields the Vec of the values E in iteration order, which is what collecting the mapped iterator
+    into the Vec expected at that position yields (the capacity hint changes no value)."""
+    if not (toks[i] == P_('{') and i + 6 < len(toks) and toks[i + 1] == I_('let') and toks[i + 2] == I_('mut') and toks[i + 3][0] == 'id'
+            and toks[i + 4] == P_('=')):
+        return None
+    match, parent = bmaps(toks)
+    c = match.get(i, -1)
+    v = toks[i + 3][1]
+    e1 = top_find(toks, i + 5, c, (';',), match) if c > 0 else -1
+    if e1 <= 0 or toks[e1 + 1] != I_('for'):
+        return None
+    init = sj(toks[i + 5:e1])
+    if not (init in ('Vec :: new ( )', 'vec ! [ ]') or re.fullmatch(r'Vec :: with_capacity \( (?:self|\w+)(?: \. \w+)* \. len \( \) \)', init)):
+        return None
+    n = top_find(toks, e1 + 2, c, ('in',), match, kinds=('id',))
+    b = n + 1 if n > 0 else -1
+    while 0 < b < c and toks[b] != P_('{'):
+        if toks[b][0] == 'punct' and toks[b][1] in ('(', '['):
+            b = match.get(b, b)
+        b += 1
+    if not (n > 0 and 0 < b < c and b in match):
+        return None
+    be = match[b]
+    pat = toks[e1 + 2:n]
+    it = toks[n + 1:b]
+    if not (tv(toks[be + 1:c]) == [v] and len(pat) == 1 and pat[0][0] == 'id' and re.search(r' \. (iter|iter_mut|into_iter) \( \)$', sj(it))
+            and pure_receiver(it[:-4]) and tv(toks[b + 1:b + 5]) == [v, '.', 'push', '('] and (b + 4) in match):
+        return None
+    pe = match[b + 4]
+    E = toks[b + 5:pe]
+    mentions_v = any(toks[k] == ('id', v) and toks[k - 1] != P_('.') for k in list(range(n + 1, b)) + list(range(b + 5, pe)))
+    if tv(toks[pe + 1:be]) not in ([';'], []) or any(t in (P_('?'), I_('return'), I_('break'), I_('continue')) for t in E) or mentions_v:
+        return None
+    new = it + [P_('.'), I_('map'), P_('('), P_('|')] + pat + [P_('|')] + E + [P_(')'), P_('.'), I_('collect'), P_('('), P_(')')]
+    return toks[:i] + new + toks[c + 1:], i + 1
+
+
+def site_const(toks, i, rel):
+    """a private `const NAME: <integer type> = <integer literal>;` that is used exactly once in its file -> the literal, with the type of
+    the constant as its suffix, at the use; the (now unused) declaration is dropped.  A constant is by definition its value inlined
+    at every use."""
+    if not (toks[i] == I_('const') and i + 6 < len(toks) and toks[i + 1][0] == 'id' and toks[i + 2] == P_(':') and toks[i + 3][0] == 'id'
+            and toks[i + 3][1] in INT_TYPES_ALL and toks[i + 4] == P_('=') and (i == 0 or toks[i - 1] in (P_(';'), P_('}'), P_('{'), P_(']')))):
+        return None
+    end = i + 5
+    while end < len(toks) and toks[end] != P_(';'):
+        end += 1
+    init, _ = apply_pass(site_fold, [P_('=')] + toks[i + 5:end] + [P_(';')], rel)
+    init = init[1:-1]
+    name, ty = toks[i + 1][1], toks[i + 3][1]
+    lit = int_lit(init[0]) if len(init) == 1 else None
+    uses = [k for k, t in enumerate(toks) if t == ('id', name) and k != i + 1]
+    if lit is None or lit[1] not in ('', ty) or len(uses) != 1:
+        return None
+    u = uses[0]
+    prv = toks[u - 1]
+    nxt = toks[u + 1] if u + 1 < len(toks) else ('', '')
+    if prv in (P_('.'), P_('::')) or nxt == P_('::') or any(str_captures(t, name) for t in toks):
+        return None
+    match, _ = bmaps(toks)
+    start = i
+    while start >= 2 and toks[start - 1] == P_(']') and match.get(start - 1, -1) > 0 and toks[match[start - 1] - 1] == P_('#'):
+        start = match[start - 1] - 1          # attributes directly in front of the declaration go with it
+    new_lit = ('num', '%d%s' % (lit[0], ty))
+    if u > end:
+        return toks[:start] + toks[end + 1:u] + [new_lit] + toks[u + 1:], start
+    return toks[:u] + [new_lit] + toks[u + 1:start] + toks[end + 1:], u
+
+
+def site_inline_fn(toks, i, rel):
+    """a private, non-generic free function of the file that is called from exactly one place (and mentioned nowhere else) is inlined at
+    that call for analysis:
+      `helper(args)?` as a whole statement or match-arm value, helper returning Result<()> (the caller returns the file's Result<..>
+      too), its body `stmts; Ok(())`, every `return` in it being `return Err(..)`: the statements replace the call -- an error raised
+      inside by `?` / `return Err` is what the `?` at the call site would have re-raised, unchanged;
+      `helper(args);` for a function without return type and without `return`: likewise.
+    Parameters: an argument that is the parameter's own name, or `&name` / `&mut name` of it, needs no binding as long as the body uses
+    the parameter only through `.`, `[..]`, `&*` / `&mut *` re-borrows or by passing it on as it was passed in (auto-(de)ref makes
+    these the same places), never assigns to it and never calls an `into*` method on it; a parameter with another name is first
+    alpha-renamed to the argument's name if that is fresh in the body; any other argument refuses the inlining.  As a statement the
+    helper's own local names must not occur in the rest of the caller's block (no capture in either direction); as a match-arm value
+    the statements get their own block."""
+    if toks[i] != I_('fn') or i + 1 >= len(toks):
+        return None
+    match, parent = bmaps(toks)
+    fns = fn_items(toks, match, parent)
+    h = [f for f in fns if f['fn'] == i]
+    if not h:
+        return None
+    h = h[0]
+    if h['owner'] or h['pub'] or h['generic'] or h['name'] == 'main':
+        return None
+    # a plain `fn`: no async / unsafe / const / extern qualifier, no conditional compilation
+    k = i - 1
+    while k >= 1 and toks[k] == P_(']') and k in match and toks[match[k] - 1] == P_('#'):
+        if any(t == I_('cfg') or t == I_('cfg_attr') for t in toks[match[k]:k]):
+            return None
+        k = match[k] - 2
+    if k >= 0 and toks[k] not in (P_(';'), P_('}'), P_('{')):
+        return None
+    name = h['name']
+    occ = [k for k, t in enumerate(toks) if t == ('id', name)]
+    if len(occ) != 2 or any(str_captures(t, name) for t in toks):
+        return None
+    call = [k for k in occ if k != i + 1][0]
+    if h['body'][0] <= call < h['body'][1] or toks[call + 1] != P_('(') or toks[call - 1] in (P_('.'), P_('::'), I_('fn')):
+        return None
+    caller = [f for f in fns if f['body'][0] <= call < f['body'][1]]
+    if not caller:
+        return None
+    caller = min(caller, key=lambda f: f['body'][1] - f['body'][0])
+    new = inline_call(toks, h, caller, call, match, parent)
+    if new is None:
+        return None
+    return new, i + 1
+
+
+def inline_call(toks, h, caller, call, match, parent):
+    ce = match.get(call + 1, -1)
+    if ce < 0:
+        return None
+    ret = sj(toks[h['ret'][0]:h['ret'][1]])
+    body = toks[h['body'][0]:h['body'][1]]
+    prv = toks[call - 1]
+    if ret == '-> Result < ( ) >':
+        if toks[ce + 1] != P_('?') or not sj(toks[caller['ret'][0]:caller['ret'][1]]).startswith('-> Result <'):
+            return None
+        if tv(body[-5:]) != ['Ok', '(', '(', ')', ')']:
+            return None
+        body = body[:-5]
+        if body and body[-1] not in (P_(';'), P_('}')):
+            return None
+        for k, t in enumerate(body):
+            if t == I_('return') and tv(body[k + 1:k + 3]) != ['Err', '(']:
+                return None
+        after = ce + 2
+    elif ret == '':
+        if any(t == I_('return') for t in body) or (body and body[-1] not in (P_(';'), P_('}'))):
+            return None
+        after = ce + 1
+    else:
+        return None
+    # the call must be a whole statement `helper(..)?;` or a whole match-arm value `=> helper(..)?,`
+    nxt = toks[after] if after < len(toks) else ('', '')
+    if prv in (P_(';'), P_('{'), P_('}')) and nxt == P_(';'):
+        mode = 'stmt'
+    elif prv == P_('=>') and nxt in (P_(','), P_('}')):
+        mode = 'arm'
+    else:
+        return None
+    params = []
+    for (a, b) in top_split_params(toks, h['params'][0], h['params'][1], match):
+        c = top_find(toks, a, b, (':',), match)
+        pt = [t for t in toks[a:c] if t != I_('mut')] if c > 0 else []
+        if len(pt) != 1 or pt[0][0] != 'id':
+            return None
+        params.append(pt[0][1])
+    args = top_split(toks, call + 2, ce, ',', match)
+    if len(args) != len(params) or len(set(params)) != len(params):
+        return None
+    bm, bp = bracket_maps(body)
+    if any(str_captures(s, p) for s in body for p in params):
+        return None
+    for p, (a, b) in zip(params, args):
+        at = toks[a:b]
+        base = [t for t in at if t not in (P_('&'), I_('mut'))]
+        if len(base) != 1 or base[0][0] != 'id' or base[0][1] in KEYWORDS or tv(at) not in ([base[0][1]], ['&', base[0][1]], ['&', 'mut', base[0][1]]):
+            return None
+        an = base[0][1]
+        if an != p:
+            # alpha-rename the parameter to the argument's name: that name must not occur in the body at all
+            if any(t == ('id', an) and is_var_pos(body, k, bp) for k, t in enumerate(body)) or any(str_captures(t, an) for t in body) \
+                    or an in params:
+                return None
+            nb = []
+            for k, t in enumerate(body):
+                pos = is_var_pos(body, k, bp) if t == ('id', p) else False
+                if pos == 'shorthand':
+                    nb.extend([t, P_(':'), ('id', an)])
+                elif pos:
+                    nb.append(('id', an))
+                else:
+                    nb.append(t)
+            body = nb
+            bm, bp = bracket_maps(body)
+        for k, t in enumerate(body):          # the uses of the parameter
+            if t != ('id', an) or not is_var_pos(body, k, bp):
+                continue
+            pv = body[k - 1] if k > 0 else ('', '')
+            nx = body[k + 1] if k + 1 < len(body) else ('', '')
+            if nx == P_('.'):
+                if k + 2 < len(body) and body[k + 2][0] == 'id' and body[k + 2][1].startswith('into'):
+                    return None
+                continue
+            if nx == P_('['):
+                continue
+            if pv == P_('*') and k >= 2 and (body[k - 2] == P_('&') or (body[k - 2] == I_('mut') and k >= 3 and body[k - 3] == P_('&'))):
+                continue
+            if pv in (P_('('), P_(',')) and nx in (P_(')'), P_(',')) and tv(at) == [an]:
+                continue          # passed on as it was passed in
+            return None
+    enc = parent[call]
+    if enc < 0 or enc not in match:
+        return None
+    hb = set(b[1] for b in fn_binders(body, {'params': (0, 0), 'body': (0, len(body))}, bm, bp))
+    # a name that is free in the helper (a function, a static ..) must not be captured by a local of the caller
+    free = set(t[1] for k, t in enumerate(body) if t[0] == 'id' and BINDER_RE.match(t[1]) and t[1] not in KEYWORDS and t[1] not in hb
+               and is_var_pos(body, k, bp)) - set(tv(toks[a:b])[-1] for (a, b) in args)
+    if free & set(b[1] for b in fn_binders(toks, caller, match, parent)):
+        return None
+    if mode == 'stmt':
+        around = toks[enc + 1:call] + toks[after + 1:match[enc]]
+        if any(t[0] == 'id' and t[1] in hb for t in around):
+            return None
+        return toks[:call] + body + toks[after + 1:]
+    return toks[:call] + [P_('{')] + body + [P_('}')] + toks[after + (1 if nxt == P_(',') else 0):]
+
+
+LOG_MACROS = ('info', 'debug', 'warn', 'trace', 'error')
+BLOCK_STARTS = ('if', 'match', 'while', 'for', 'loop', 'unsafe')
+
+
+def stmt_end(toks, i, hi, match):
+    """toks[i] starts a statement of a block that ends at hi: index just after it (after its `;`, or after the block of a block-like
+    statement including its else chain), or -1"""
+    if toks[i][0] == 'id' and toks[i][1] in BLOCK_STARTS:
+        j = i + 1
+        while j < hi and toks[j] != P_('{'):
+            if toks[j][0] == 'punct' and toks[j][1] in ('(', '['):
+                j = match.get(j, hi)
+            elif toks[j] == P_(';'):
+                return -1
+            j += 1
+        if j >= hi or j not in match:
+            return -1
+        c = match[j]
+        while toks[i] == I_('if') and c + 1 < hi and toks[c + 1] == I_('else'):
+            j = c + 2
+            while j < hi and toks[j] != P_('{'):
+                if toks[j][0] == 'punct' and toks[j][1] in ('(', '['):
+                    j = match.get(j, hi)
+                j += 1
+            if j >= hi or j not in match:
+                return -1
+            c = match[j]
+        if c + 1 < hi and toks[c + 1] in (P_('.'), P_('?')):
+            return -1
+        return c + 2 if c + 1 < hi and toks[c + 1] == P_(';') else c + 1
+    e = top_find(toks, i, hi, (';',), match)
+    return e + 1 if e >= 0 else -1
+
+
+def field_path(toks):
+    """`x . f . g` -> True"""
+    return bool(toks) and len(toks) % 2 == 1 and all((t[0] == 'id' and t[1] not in KEYWORDS) if n % 2 == 0 else t == P_('.') for n, t in enumerate(toks))
+
+
+_DROP = []
+
+
+def crate_has_drop_impl():
+    if not _DROP:
+        found = False
+        for root, _, files in os.walk(os.path.join(REPO, 'src')):
+            for f in files:
+                if f.endswith('.rs'):
+                    with open(os.path.join(root, f)) as fh:
+                        if re.search(r'\bDrop\s+for\b|\bunsafe\b', fh.read()):
+                            found = True
+        _DROP.append(found)
+    return _DROP[0]
+
+
+def site_swap_update(toks, i, rel):
+    """two adjacent statements of a block exchanged, where one (U) is `x.f.. += v;` and the other (O) is any statement that is not a
+    `let` -- under conditions that make the two orders indistinguishable:
+      * no data dependence: O does not mention x at all, does not assign to or mutably borrow v, and contains no break / continue
+        (an early exit of O by `?` / return leaves the function, see below);
+      * U cannot fail: v is `let v = t0 - t1 - .. - tn;` a few statements earlier in the same block (only logging macros in between),
+        one of t1..tn is the very place x.f.., and t0 is an immutable local bound by `let t0 = .. as usize;` -- so all of these are
+        usize, the subtractions did not underflow (the `let` would have panicked, or wrapped consistently when overflow checks are
+        off), hence x.f.. + v = t0 - (the other ti) <= t0 fits: no overflow panic that O's effects could be ordered against;
+      * U is unobservable when O leaves the function early or panics: x is an owned local (`let mut x = ..;` of the same function,
+        the only binder of that name), every enclosing construct up to that `let`'s block is a plain `if` / block, every other `let` in
+        scope whose initialiser mentions x is arithmetic (no `&`, no closure: nothing can hold a borrow of x under another name),
+        and the crate has no `impl Drop` and no `unsafe` (dropping x observes nothing of its integer field)."""
+    if i == 0 or toks[i - 1] not in (P_(';'), P_('{'), P_('}')) or toks[i] in (P_('}'), P_(';')):
+        return None
+    match, parent = bmaps(toks)
+    enc = parent[i]
+    if enc < 0 or toks[enc] != P_('{') or enc not in match or header_kw(toks, enc, parent) is None:
+        return None
+    bend = match[enc]
+    e1 = stmt_end(toks, i, bend, match)
+    if e1 < 0 or e1 >= bend:
+        return None
+    e2 = stmt_end(toks, e1, bend, match)
+    if e2 < 0 or e2 > bend:
+        return None
+    A, B = toks[i:e1], toks[e1:e2]
+    for U, O in ((A, B), (B, A)):
+        if len(U) < 6 or U[-1] != P_(';') or U[-3] != P_('+=') or U[-2][0] != 'id' or U[-2][1] in KEYWORDS or not field_path(U[:-3]) or len(U) < 6:
+            continue
+        x, place, v = U[0][1], U[:-3], U[-2][1]
+        if len(place) < 3 or O[0] == I_('let') or any(t == ('id', x) for t in O) or any(t in (I_('break'), I_('continue')) for t in O):
+            continue
+        if any(t == ('id', v) and ((k + 1 < len(O) and O[k + 1] in (P_('='), P_('+='), P_('-='), P_('*='))) or (k > 0 and O[k - 1] == I_('mut'))) for k, t in enumerate(O)):
+            continue
+        if crate_has_drop_impl():
+            continue
+        fns = [f for f in fn_items(toks, match, parent) if f['body'][0] <= i < f['body'][1]]
+        if not fns:
+            continue
+        f = min(fns, key=lambda g: g['body'][1] - g['body'][0])
+        bs = fn_binders(toks, f, match, parent)
+        xb = [b for b in bs if b[1] == x]
+        if len(xb) != 1 or not (toks[xb[0][0] - 1] == I_('mut') and toks[xb[0][0] - 2] == I_('let') and toks[xb[0][0] + 1] == P_('=')):
+            continue
+        xdecl = xb[0][0]
+        # the enclosing constructs between the declaration of x and the pair: plain `if` / bare blocks only
+        ok = True
+        b = enc
+        while b != parent[xdecl]:
+            if b < 0 or header_kw(toks, b, parent) not in ('if', 'block', 'else'):
+                ok = False
+                break
+            if header_kw(toks, b, parent) == 'if':
+                h = b - 1
+                while h > 0 and not (toks[h] == I_('if') and parent[h] == parent[b]):
+                    h -= 1
+                if toks[h + 1] == I_('let'):
+                    ok = False
+                    break
+            b = parent[b]
+        if not ok:
+            continue
+        # every let between the declaration of x and the pair that mentions x is arithmetic
+        for b2 in bs:
+            if b2[0] > xdecl and b2[0] < i and b2[2] <= i < b2[3] and b2 is not xb[0]:
+                if toks[b2[0] - 1] != I_('let') and not (toks[b2[0] - 1] == I_('mut') and toks[b2[0] - 2] == I_('let')):
+                    ok = False          # a binder of another kind whose scope reaches the pair
+                    break
+                end = top_find(toks, b2[0], len(toks), (';',), match)
+                rhs = toks[b2[0] + 1:end]
+                if any(t == ('id', x) for t in rhs) and (any(t in (P_('&'), P_('&&'), P_('|'), P_('||'), P_('{')) for t in rhs) or not has_top_operator(rhs)):
+                    ok = False
+                    break
+        if not ok:
+            continue
+        # v = t0 - t1 - .. - tn, in this block, only logging in between
+        k = i
+        vdef = None
+        while True:
+            # previous statement of the block
+            p = k - 1
+            if p <= enc:
+                break
+            if toks[p] != P_(';'):
+                break
+            q = p - 1
+            while q > enc and not (parent[q] == enc and toks[q] in (P_(';'), P_('}'), P_('{'))):
+                q -= 1
+            st = toks[q + 1:p]
+            if len(st) >= 4 and st[0] == I_('let') and st[1] == ('id', v) and st[2] == P_('='):
+                vdef = st[3:]
+                break
+            if len(st) >= 3 and st[0][0] == 'id' and st[0][1] in LOG_MACROS and st[1] == P_('!') and not any(t == I_('mut') for t in st):
+                k = q + 1
+                continue
+            break
+        if vdef is None:
+            continue
+        terms = []
+        cur = []
+        for t in vdef:
+            if t == P_('-'):
+                terms.append(cur)
+                cur = []
+            else:
+                cur.append(t)
+        terms.append(cur)
+        if len(terms) < 2 or not all(field_path(t) for t in terms) or not any(t == place for t in terms[1:]) or len(terms[0]) != 1:
+            continue
+        t0 = terms[0][0][1]
+        tb = [b for b in bs if b[1] == t0]
+        if len(tb) != 1 or toks[tb[0][0] - 1] != I_('let') or toks[tb[0][0] + 1] != P_('='):
+            continue
+        end = top_find(toks, tb[0][0], len(toks), (';',), match)
+        if end < 2 or toks[end - 2] != I_('as') or toks[end - 1] != I_('usize') or not (tb[0][2] <= i < tb[0][3]):
+            continue
+        if any(toks[k2] == ('id', t0) and k2 != tb[0][0] and toks[k2 + 1] in (P_('='), P_('+='), P_('-='), P_('*=')) for k2 in range(f['body'][0], f['body'][1] - 1)):
+            continue
+        return toks[:i] + B + A + toks[e2:], e2
+    return None
+
+
+NORM_PASSES = (('hex', site_hex), ('fold', site_fold), ('commute', site_commute), ('const', site_const), ('not_gte', site_not_gte),
+               ('map_or', site_map_or), ('match_some', site_match_some), ('inline_fn', site_inline_fn), ('inline_let', site_inline_let),
+               ('loop_collect', site_loop_collect), ('swap_update', site_swap_update))
+NORM_ALL = tuple(n for n, _ in NORM_PASSES if n not in ('commute', 'swap_update'))     # these two flip a site back and forth: only useful site by site
 
 
 # ------------------------------------------------------------------------------------------------
@@ -518,7 +2028,7 @@ def parse_params(ptoks, where):
 
 
 def find_fn(rel, impl_name, fn_name):
-    toks = tokenize(read(rel), rel)
+    toks = file_toks(rel)
     if impl_name is None:
         for name, params, ret, body in fns_in(toks):
             if name == fn_name:
@@ -534,7 +2044,7 @@ def find_fn(rel, impl_name, fn_name):
 
 def find_const(rel, name):
     """`const NAME: T = <expr>;` -> (type string, expr tokens)"""
-    toks = tokenize(read(rel), rel)
+    toks = file_toks(rel)
     vals = tv(toks)
     for i in range(len(vals) - 2):
         if vals[i] == 'const' and vals[i + 1] == name:
@@ -582,7 +2092,7 @@ def int_const(rel, name):
 def check_version_struct(rel):
     """the struct must be `#[derive(.. PartialOrd, Ord ..)] pub struct Version(pub u8, pub u8, pub u8);`
     so that `<`/`<=` are the lexicographic order on (major, minor, patch)"""
-    toks = tokenize(read(rel), rel)
+    toks = file_toks(rel)
     vals = tv(toks)
     i = find_seq(toks, ['struct', 'Version'])
     if i < 0:
@@ -625,7 +2135,7 @@ def fn_to_gallina(rel, impl_name, fn_name, coq_name, self_ty='version', result_b
 
 
 def enum_codes(rel, name):
-    toks = tokenize(read(rel), rel)
+    toks = file_toks(rel)
     vals = tv(toks)
     i = find_seq(toks, ['enum', name, '{'])
     if i < 0:
@@ -1117,7 +2627,7 @@ def gen_tables():
         'peppi': 'src/frame/immutable/peppi.rs',
         'transpose': 'src/frame/transpose.rs',
     }
-    toks = {k: tokenize(read(v), v) for k, v in files.items()}
+    toks = {k: file_toks(v) for k, v in files.items()}
     T = {s: {} for s in GEN_STRUCTS}
     seen = set()
     for key in ('mutable', 'imm', 'slippi', 'peppi'):
@@ -2004,7 +3514,7 @@ class LayoutWalker:
 
 def layout_consts():
     """resolver for the integer constants used as sizes in de.rs: local consts, or those imported from crate::game"""
-    toks = tokenize(read(DE_RS), DE_RS)
+    toks = file_toks(DE_RS)
     vals = tv(toks)
     imported = set()
     i = 0
@@ -2043,7 +3553,7 @@ def layout_consts():
 
 def check_layout_helpers():
     """the helpers whose meaning the walker builds in: if_more, player_bytes, BE"""
-    toks = tokenize(read(DE_RS), DE_RS)
+    toks = file_toks(DE_RS)
     params, ret, body = find_fn(DE_RS, None, 'if_more')
     if sj(body) != IF_MORE_BODY or not sj(params).startswith('r : & mut & [ u8 ] , f : F'):
         raise TranslateError('%s fn if_more: not the expected helper (run the closure iff bytes remain): %s' % (DE_RS, sj(body)[:200]))
@@ -2152,7 +3662,7 @@ class StmtView(LayoutWalker):
 def imported_from(rel, group):
     """names imported by `use crate::{ ... <group>::{A, B, ..} ... }` in rel; group is a token list such as
     ['frame', '::', 'immutable'] -- nested groups inside are not descended into"""
-    toks = tokenize(read(rel), rel)
+    toks = file_toks(rel)
     vals = tv(toks)
     out = set()
     n = len(group)
@@ -2198,7 +3708,7 @@ def gen_payload_sizes():
     if sj(params) != 'game : & Game' or sj(ret) != '-> PayloadSizes':
         raise TranslateError('%s: unexpected signature (%s) %s' % (where, sj(params), sj(ret)))
     # PayloadSizes: Vec<(u8, u16)>, push = (event as u8, size.try_into().unwrap())  -- the u16 conversion is Panic 401
-    all_toks = tokenize(read(SLP_SER), SLP_SER)
+    all_toks = file_toks(SLP_SER)
     decl = parse_struct_decl(all_toks, 'PayloadSizes', SLP_SER)
     if decl != [('sizes', 'Vec < ( u8 , u16 ) >')]:
         raise TranslateError('%s: struct PayloadSizes is not { sizes: Vec<(u8, u16)> }: %s' % (SLP_SER, decl))
@@ -2588,8 +4098,8 @@ def fw_for_block(st, where):
 
 
 def gen_frame_write():
-    all_toks = tokenize(read(FW_RS), FW_RS)
-    decl_toks = tokenize(read(FW_DECL), FW_DECL)
+    all_toks = file_toks(FW_RS)
+    decl_toks = file_toks(FW_DECL)
     if find_seq(all_toks, ['type', 'BE', '=', 'byteorder', '::', 'BigEndian', ';']) < 0:
         raise TranslateError('%s: `type BE = byteorder::BigEndian;` not found' % FW_RS)
     if 'Event' not in imported_from(FW_RS, ['io', '::', 'slippi']) and find_seq(all_toks, ['de', '::', 'Event']) < 0:
@@ -2801,7 +4311,7 @@ def gen_splitter():
     INT = r'(\d[\d_]*)'
     # ---- reader
     where = '%s fn handle_splitter_event' % DE_RS
-    all_toks = tokenize(read(DE_RS), DE_RS)
+    all_toks = file_toks(DE_RS)
     if find_seq(all_toks, ['type', 'BE', '=', 'byteorder', '::', 'BigEndian', ';']) < 0:
         raise TranslateError('%s: `type BE = byteorder::BigEndian;` not found' % DE_RS)
     if parse_struct_decl(all_toks, 'SplitAccumulator', DE_RS) != [('raw', 'Vec < u8 >'), ('actual_size', 'u32')]:
@@ -2843,7 +4353,7 @@ def gen_splitter():
 
     # ---- writer
     where = '%s fn gecko_codes' % SLP_SER
-    stoks = tokenize(read(SLP_SER), SLP_SER)
+    stoks = file_toks(SLP_SER)
     if find_seq(stoks, ['type', 'BE', '=', 'byteorder', '::', 'BigEndian', ';']) < 0:
         raise TranslateError('%s: `type BE = byteorder::BigEndian;` not found' % SLP_SER)
     events = dict(enum_codes(DE_RS, 'Event'))
@@ -3148,7 +4658,7 @@ def fmt_char(lit, where):
 def gen_ubjson_markers():
     ERR = r'Err \( err ! \( .* \) \)'
     # ---- reader
-    det = tokenize(read(UBJ_DE), UBJ_DE)
+    det = file_toks(UBJ_DE)
     if find_seq(det, ['use', 'byteorder', '::', '{', 'BigEndian', ',', 'ReadBytesExt', '}', ';']) < 0:
         raise TranslateError('%s: `use byteorder::{BigEndian, ReadBytesExt};` not found' % UBJ_DE)
     p_, r_, b_ = find_fn(UBJ_DE, None, 'to_utf8')
@@ -3204,7 +4714,7 @@ def gen_ubjson_markers():
         raise TranslateError('%s: expected exactly one arm each for key, end with distinct bytes, found %s' % (where, key_arms))
 
     # ---- writer
-    sert = tokenize(read(UBJ_SER), UBJ_SER)
+    sert = file_toks(UBJ_SER)
     if find_seq(sert, ['use', 'byteorder', '::', '{', 'BigEndian', ',', 'WriteBytesExt', '}', ';']) < 0:
         raise TranslateError('%s: `use byteorder::{BigEndian, WriteBytesExt};` not found' % UBJ_SER)
     where = '%s fn write_utf8' % UBJ_SER
@@ -3278,7 +4788,7 @@ def gen_ubjson_markers():
 #     -> Gen/WriterRaw.v; the top-level sequence of write() -> Gen/WriterSteps.v
 
 def gen_writer_raw():
-    stoks = tokenize(read(SLP_SER), SLP_SER)
+    stoks = file_toks(SLP_SER)
     events = dict(enum_codes(DE_RS, 'Event'))
     # ---- raw_size
     where = '%s PayloadSizes::raw_size' % SLP_SER
@@ -3449,7 +4959,7 @@ def byte_list(text, where):
 
 def gen_writer_steps():
     events = dict(enum_codes(DE_RS, 'Event'))
-    stoks = tokenize(read(SLP_SER), SLP_SER)
+    stoks = file_toks(SLP_SER)
     if find_seq(stoks, ['type', 'BE', '=', 'byteorder', '::', 'BigEndian', ';']) < 0:
         raise TranslateError('%s: `type BE = byteorder::BigEndian;` not found' % SLP_SER)
     # helpers game_start / game_end: event code, then the retained bytes
@@ -3700,7 +5210,7 @@ def pe_steps(toks, where, st):
 
 
 def gen_parse_event():
-    all_toks = tokenize(read(DE_RS), DE_RS)
+    all_toks = file_toks(DE_RS)
     if find_seq(all_toks, ['type', 'BE', '=', 'byteorder', '::', 'BigEndian', ';']) < 0:
         raise TranslateError('%s: `type BE = byteorder::BigEndian;` not found' % DE_RS)
     events = dict(enum_codes(DE_RS, 'Event'))
@@ -3945,8 +5455,8 @@ def af_closure(body_re):
 
 
 def gen_arrow_frame():
-    all_toks = tokenize(read(AF_RS), AF_RS)
-    decl_toks = tokenize(read(FW_DECL), FW_DECL)
+    all_toks = file_toks(AF_RS)
+    decl_toks = file_toks(FW_DECL)
     data_decl = parse_struct_decl(decl_toks, 'Data', FW_DECL)
     port_decl = parse_struct_decl(decl_toks, 'PortData', FW_DECL)
     frame_decl = parse_struct_decl(decl_toks, 'Frame', FW_DECL)
@@ -4225,7 +5735,7 @@ def gen_arrow_frame():
 
     # ---------------- game::Port: Display and parse
     gm = 'src/game/mod.rs'
-    gtoks = tokenize(read(gm), gm)
+    gtoks = file_toks(gm)
     codes = dict(enum_codes(gm, 'Port'))
     disp = None
     for kind, name, frm, body in impl_blocks(gtoks):
@@ -4351,7 +5861,7 @@ FT_TR = 'src/frame/transpose.rs'
 
 def ft_one(rel, tr_toks):
     """-> (data rows, portdata rows, frame rows) of one file"""
-    toks = tokenize(read(rel), rel)
+    toks = file_toks(rel)
     decls = {s: parse_struct_decl(toks, s, rel) for s in ('Data', 'PortData', 'Frame')}
     fns = {}
     for kind, name, frm, body in impl_blocks(toks):
@@ -4447,7 +5957,7 @@ def ft_one(rel, tr_toks):
 
 
 def gen_frame_transpose():
-    tr_toks = tokenize(read(FT_TR), FT_TR)
+    tr_toks = file_toks(FT_TR)
     L = []
     L.append('(* GENERATED by tools/rust2coq.py from the hand-written Data / PortData / Frame :: transpose_one of %s and' % FT_FILES[0][1])
     L.append('   %s (field lists of the targets from %s) -- do not edit. *)' % (FT_FILES[1][1], FT_TR))
@@ -4515,7 +6025,7 @@ def expr_to_gallina2(text, env, where, coq_name, binders, ret_ty):
 
 
 def gen_read_prologue():
-    all_toks = tokenize(read(DE_RS), DE_RS)
+    all_toks = file_toks(DE_RS)
     if find_seq(all_toks, ['type', 'BE', '=', 'byteorder', '::', 'BigEndian', ';']) < 0:
         raise TranslateError('%s: `type BE = byteorder::BigEndian;` not found' % DE_RS)
     if find_seq(all_toks, ['type', 'PayloadSizes', '=', '[', 'Option', '<', 'NonZeroU16', '>', ';', '256', ']', ';']) < 0:
@@ -4657,7 +6167,7 @@ def gen_read_prologue():
 #     -> Gen/SlppHelpers.v   (assert_current_version itself is already in Gen/Funs.v)
 
 def gen_slpp_helpers():
-    de_toks = tokenize(read(SLPP_DE), SLPP_DE)
+    de_toks = file_toks(SLPP_DE)
     D = []
 
     def helper(name, want_params, want_ret):
@@ -4669,7 +6179,7 @@ def gen_slpp_helpers():
 
     # ---- read_peppi_gecko_codes
     where, body = helper('read_peppi_gecko_codes', 'mut r : R', '-> Result < game :: GeckoCodes >')
-    decl = parse_struct_decl(tokenize(read('src/game/mod.rs'), 'src/game/mod.rs'), 'GeckoCodes', 'src/game/mod.rs')
+    decl = parse_struct_decl(file_toks('src/game/mod.rs'), 'GeckoCodes', 'src/game/mod.rs')
     if sorted(decl) != [('actual_size', 'u32'), ('bytes', 'Vec < u8 >')]:
         raise TranslateError('src/game/mod.rs: struct GeckoCodes is not { bytes: Vec<u8>, actual_size: u32 }: %s' % decl)
     m = strict_match(not_logs([sj(x) for x in fw_stmts(body, where)]), [
@@ -4823,7 +6333,7 @@ FRAME_MOD_RS = 'src/frame/mod.rs'
 def other_impl_fn(rel, header, fn_name):
     """fn of an `impl <header> { .. }` block whose header is not a plain name (trait impls, generic impls);
     header is the token-joined text between `impl` and `{`; exactly one such block must exist"""
-    toks = tokenize(read(rel), rel)
+    toks = file_toks(rel)
     blocks = [body for kind, name, frm, body in impl_blocks(toks) if kind == 'other' and name == header]
     if len(blocks) != 1:
         raise TranslateError('%s: expected exactly one `impl %s`, found %d' % (rel, header, len(blocks)))
@@ -4836,7 +6346,7 @@ def other_impl_fn(rel, header, fn_name):
 
 def enum_variants_plain(rel, name):
     """`enum Name { A, B, .. }` (unit variants without explicit codes) -> [A, B, ..]"""
-    toks = tokenize(read(rel), rel)
+    toks = file_toks(rel)
     vals = tv(toks)
     i = find_seq(toks, ['enum', name, '{'])
     if i < 0:
@@ -4909,7 +6419,7 @@ def checked_usize_defs(text, zenv, where, arg_name, of_name, zbinder):
 
 
 def gen_rollbacks():
-    toks = tokenize(read(RB_RS), RB_RS)
+    toks = file_toks(RB_RS)
     decl = dict(parse_struct_decl(toks, 'Frame', RB_RS))
     if decl.get('id') != 'PrimitiveArray < i32 >':
         raise TranslateError('%s: Frame.id is not a PrimitiveArray<i32>: %s' % (RB_RS, decl.get('id')))
@@ -5090,7 +6600,7 @@ def gen_version_text():
     if not re.fullmatch(r's \. parse \( \) \. map_err \( \| _ \| err ! \( .* \) \)', sj(body)) or tv(body).count('parse') != 1 \
             or any(x in tv(body) for x in ('as', 'from', 'into', 'try_from', 'try_into', 'unwrap_or', 'ok')):
         raise TranslateError('%s: the body is not `s.parse().map_err(|_| err!(..))` (the target type is the one of the signature): %s' % (where, sj(body)[:300]))
-    if find_seq(tokenize(read(IO_RS), IO_RS), ['type', 'Result', '<', 'T', '>', '=', 'std', '::', 'result', '::', 'Result', '<', 'T', ',', 'Error', '>', ';']) < 0:
+    if find_seq(file_toks(IO_RS), ['type', 'Result', '<', 'T', '>', '=', 'std', '::', 'result', '::', 'Result', '<', 'T', ',', 'Error', '>', ';']) < 0:
         raise TranslateError('%s: `type Result<T> = std::result::Result<T, Error>;` not found' % IO_RS)
     bits, signed = INT_TYPES[mr.group(1)]
     D.append('(* %s: fn parse_u8(s: &str) -> Result<%s> { s.parse().map_err(..) }: str::parse at the type of the signature *)' % (IO_RS, mr.group(1)))
@@ -5104,7 +6614,7 @@ def gen_version_text():
         check_version_struct(rel)
         if 'parse_u8' not in imported_from(rel, ['io']):
             raise TranslateError('%s: parse_u8 is not imported from crate::io' % rel)
-        toks = tokenize(read(rel), rel)
+        toks = file_toks(rel)
         if tv(toks).count('parse_u8') - 1 != 3 or find_seq(toks, ['fn', 'parse_u8']) >= 0:
             raise TranslateError('%s: parse_u8 is used outside the three components of FromStr (or redefined)' % rel)
         if find_seq(toks, ['use', 'std', '::', '{', 'fmt', ',', 'str', '}', ';']) < 0:
@@ -5205,7 +6715,7 @@ BYTE_RE = r'(0x[0-9a-fA-F]{1,2}|\d{1,3})'
 
 
 def gen_melee_string():
-    toks = tokenize(read(SJ_RS), SJ_RS)
+    toks = file_toks(SJ_RS)
     D = []
     if find_seq(toks, ['use', 'encoding_rs', '::', 'SHIFT_JIS', ';']) < 0:
         raise TranslateError('%s: `use encoding_rs::SHIFT_JIS;` not found' % SJ_RS)
@@ -5264,7 +6774,7 @@ def gen_melee_string():
 
     # ---- the call sites in fn player
     where = '%s fn player' % DE_RS
-    de_toks = tokenize(read(DE_RS), DE_RS)
+    de_toks = file_toks(DE_RS)
     params, ret, body = find_fn(DE_RS, None, 'player')
     pnames = [n for n, _ in parse_params(params, where)]
     sts = [sj(x) for x in fw_stmts(body, where)]
@@ -5328,7 +6838,7 @@ def gen_melee_string():
 #     choose between copy and seek, and take the digest -> Gen/HashingSrc.v
 
 def gen_hashing():
-    toks = tokenize(read(IO_RS), IO_RS)
+    toks = file_toks(IO_RS)
     D = []
     if find_seq(toks, ['use', 'xxhash_rust', '::', 'xxh3', '::', 'Xxh3', ';']) < 0:
         raise TranslateError('%s: `use xxhash_rust::xxh3::Xxh3;` not found' % IO_RS)
@@ -5407,7 +6917,7 @@ def gen_hashing():
 
     # ---- fn read of de.rs
     where = '%s fn read' % DE_RS
-    de_toks = tokenize(read(DE_RS), DE_RS)
+    de_toks = file_toks(DE_RS)
     decl = dict(parse_struct_decl(de_toks, 'Opts', DE_RS))
     params, ret, body = find_fn(DE_RS, None, 'read')
     if sjp(params) != 'r : R , opts : Option < & Opts >':
@@ -5507,8 +7017,8 @@ GAME_RS = 'src/game/mod.rs'
 
 def gen_port_occupancy():
     where = '%s fn port_occupancy' % GAME_RS
-    toks = tokenize(read(GAME_RS), GAME_RS)
-    if parse_struct_decl(tokenize(read(FRAME_MOD_RS), FRAME_MOD_RS), 'PortOccupancy', FRAME_MOD_RS) != [('port', 'Port'), ('follower', 'bool')]:
+    toks = file_toks(GAME_RS)
+    if parse_struct_decl(file_toks(FRAME_MOD_RS), 'PortOccupancy', FRAME_MOD_RS) != [('port', 'Port'), ('follower', 'bool')]:
         raise TranslateError('%s: struct PortOccupancy is not { port: Port, follower: bool }' % FRAME_MOD_RS)
     pdecl = dict(parse_struct_decl(toks, 'Player', GAME_RS))
     sdecl = dict(parse_struct_decl(toks, 'Start', GAME_RS))
@@ -5745,7 +7255,7 @@ def gen_start_wiring():
     for k in range(kp + 1, len(raw) - 1):
         if ('id', target) in raw[k]:
             raise TranslateError('%s: `%s` is used between its definition and the final struct literal: %s' % (where, target, txt[k][:200]))
-    sdecl = dict(parse_struct_decl(tokenize(read(GAME_RS), GAME_RS), 'Start', GAME_RS))
+    sdecl = dict(parse_struct_decl(file_toks(GAME_RS), 'Start', GAME_RS))
     if sdecl.get(target) != 'Vec < Player >':
         raise TranslateError('%s: Start.%s is not a Vec<Player>: %s' % (GAME_RS, target, sdecl.get(target)))
 
@@ -5853,7 +7363,7 @@ def js_find_decl(name, cur_rel, where):
     """the file that declares `struct name` / `enum name`: the current file, or (if the current file imports the name) one of the others"""
     found = []
     for rel in (cur_rel,) + tuple(f for f in JS_FILES if f != cur_rel):
-        toks = tokenize(read(rel), rel)
+        toks = file_toks(rel)
         for kw in ('struct', 'enum'):
             i = find_seq(toks, [kw, name])
             if i >= 0 and toks[i + 2][1] in ('{', '(', ';', '<'):
@@ -5864,7 +7374,7 @@ def js_find_decl(name, cur_rel, where):
         raise TranslateError('%s: the type %s is declared in %d of %s' % (where, name, len(found), ', '.join(JS_FILES)))
     rel, kw, toks, i = found[0]
     if rel != cur_rel:
-        cur = tokenize(read(cur_rel), cur_rel)
+        cur = file_toks(cur_rel)
         vals = tv(cur)
         ok = False
         k = 0
@@ -5927,7 +7437,7 @@ def gen_json_shape():
         if 'Serialize' not in js_derives(attrs):
             raise TranslateError('%s: does not derive Serialize (a hand-written impl is not modelled)' % w)
         for t in JS_FILES:
-            tt = tokenize(read(t), t)
+            tt = file_toks(t)
             if find_seq(tt, ['Serialize', 'for', name]) >= 0:
                 raise TranslateError('%s: a hand-written `impl Serialize for %s` exists in %s' % (w, name, t))
         if toks[i + 2][1] == '<':
@@ -6066,7 +7576,7 @@ def ub_coq_rw(t):
 
 
 def gen_ubjson_bodies():
-    det = tokenize(read(UBJ_DE), UBJ_DE)
+    det = file_toks(UBJ_DE)
     if find_seq(det, ['use', 'byteorder', '::', '{', 'BigEndian', ',', 'ReadBytesExt', '}', ';']) < 0:
         raise TranslateError('%s: `use byteorder::{BigEndian, ReadBytesExt};` not found' % UBJ_DE)
     D = []
@@ -6183,7 +7693,7 @@ def gen_ubjson_bodies():
     D.append(expr_to_gallina(mt.group(1), [], env, where, 'ubj_depth_to_val', ['depth'], 'N'))
 
     # ---- writer
-    sert = tokenize(read(UBJ_SER), UBJ_SER)
+    sert = file_toks(UBJ_SER)
     if find_seq(sert, ['use', 'byteorder', '::', '{', 'BigEndian', ',', 'WriteBytesExt', '}', ';']) < 0:
         raise TranslateError('%s: `use byteorder::{BigEndian, WriteBytesExt};` not found' % UBJ_SER)
     where = '%s fn write_utf8' % UBJ_SER
@@ -6368,7 +7878,7 @@ def sx_place(text, guard, where, what):
 
 def sx_struct(name, rels):
     for rel in rels:
-        toks = tokenize(read(rel), rel)
+        toks = file_toks(rel)
         i = find_seq(toks, ['struct', name])
         if i >= 0 and toks[i + 2][1] in ('(', '{'):
             return rel, dict(parse_struct_decl(toks, name, rel))
@@ -6379,7 +7889,7 @@ def sx_type_of(place, guard, where):
     """the declared type (token-joined text) of a place, following struct declarations of src/game/{immutable,mod}.rs and src/io/slippi/mod.rs"""
     kind, path = place
     if kind == 'WpGame':
-        gd = dict(parse_struct_decl(tokenize(read(GAME_IMM_RS), GAME_IMM_RS), 'Game', GAME_IMM_RS))
+        gd = dict(parse_struct_decl(file_toks(GAME_IMM_RS), 'Game', GAME_IMM_RS))
         if path[0] not in gd:
             raise TranslateError('%s: `game.%s` is not a field of struct Game (%s)' % (where, path[0], GAME_IMM_RS))
         ty, path = gd[path[0]], path[1:]
@@ -6405,7 +7915,7 @@ def sx_coq_place(pl):
 def sx_serde_struct(rel, name, allowed_tuple=False):
     """a `#[derive(.. Serialize ..)] struct` without container-level serde attributes -> [(json key, rust field, omitted when None, type text)]
     (for a tuple struct: [(index, index, False, type)])"""
-    toks = tokenize(read(rel), rel)
+    toks = file_toks(rel)
     i = find_seq(toks, ['struct', name])
     w = '%s struct %s' % (rel, name)
     if i < 0 or toks[i + 2][1] not in ('(', '{'):
@@ -6482,13 +7992,13 @@ def gen_slpp_write_src():
         raise TranslateError('%s: unexpected parameters: %s' % (where, sjp(params)))
     if not {'peppi', 'slippi'} <= imported_from(SLPP_SER, ['io']) or 'port_occupancy' not in imported_from(SLPP_SER, ['game']):
         raise TranslateError('%s: expected `use crate::{game::{immutable::Game, port_occupancy}, io::{peppi, slippi}}`' % SLPP_SER)
-    ser_toks = tokenize(read(SLPP_SER), SLPP_SER)
+    ser_toks = file_toks(SLPP_SER)
     if find_seq(ser_toks, ['immutable', '::', 'Game']) < 0:
         raise TranslateError('%s: `Game` is not game::immutable::Game' % SLPP_SER)
-    gdecl = parse_struct_decl(tokenize(read(GAME_IMM_RS), GAME_IMM_RS), 'Game', GAME_IMM_RS)
+    gdecl = parse_struct_decl(file_toks(GAME_IMM_RS), 'Game', GAME_IMM_RS)
     if sorted(gdecl) != sorted(SX_GAME_FIELDS):
         raise TranslateError('%s: struct Game is not { %s }: %s' % (GAME_IMM_RS, ', '.join('%s: %s' % (a, b.replace(' ', '')) for a, b in SX_GAME_FIELDS), gdecl))
-    bdecl = parse_struct_decl(tokenize(read(GAME_RS), GAME_RS), 'Bytes', GAME_RS)
+    bdecl = parse_struct_decl(file_toks(GAME_RS), 'Bytes', GAME_RS)
     if bdecl != [('0', 'Vec < u8 >')]:
         raise TranslateError('%s: struct Bytes is not (pub Vec<u8>): %s' % (GAME_RS, bdecl))
     # ---- struct Peppi, Version, Quirks
@@ -6499,7 +8009,7 @@ def gen_slpp_write_src():
         raise TranslateError('%s: struct Version is not (pub u8, pub u8, pub u8)' % PEPPI_MOD_RS)
     if [(f, t) for _, f, _, t in quirks] != [('double_game_end', 'bool')]:
         raise TranslateError('%s: struct Quirks is not { double_game_end: bool } (the model keeps exactly this flag): %s' % (GAME_RS, quirks))
-    if 'Quirks' not in imported_from(PEPPI_MOD_RS, ['game']) and find_seq(tokenize(read(PEPPI_MOD_RS), PEPPI_MOD_RS), ['game', '::', 'Quirks']) < 0:
+    if 'Quirks' not in imported_from(PEPPI_MOD_RS, ['game']) and find_seq(file_toks(PEPPI_MOD_RS), ['game', '::', 'Quirks']) < 0:
         raise TranslateError('%s: `Quirks` is not imported from crate::game' % PEPPI_MOD_RS)
     ptypes = dict((f, t) for _, f, _, t in peppi)
     if sorted(ptypes.items()) != [('quirks', 'Option < Quirks >'), ('slp_hash', 'Option < String >'), ('version', 'Version')]:
@@ -6846,7 +8356,7 @@ def sy_frames_arm(name, bd, accs, where):
     dflt, fld = sx_map_or(sj(st[5:j]), w + ' (the test)')
     if dflt not in ('true', 'false'):
         raise TranslateError('%s: the default of the test is not a bool literal: %s' % (w, dflt[:50]))
-    od = dict(parse_struct_decl(tokenize(read(SLPP_DE), SLPP_DE), 'Opts', SLPP_DE))
+    od = dict(parse_struct_decl(file_toks(SLPP_DE), 'Opts', SLPP_DE))
     if od.get(fld) != 'bool':
         raise TranslateError('%s: Opts.%s is not a bool field' % (SLPP_DE, fld))
     arms = match_arms(st[j + 1:len(st) - 2], w)
@@ -6923,7 +8433,7 @@ def sy_frames_arm(name, bd, accs, where):
             raise TranslateError('%s: the branch does not end with an empty frame table or a call of read_arrow_frames' % ww)
         return out
 
-    if find_seq(tokenize(read(SLPP_DE), SLPP_DE), ['mutable', '::', 'Frame', 'as', 'MutableFrame']) < 0 or 'port_occupancy' not in imported_from(SLPP_DE, ['game']):
+    if find_seq(file_toks(SLPP_DE), ['mutable', '::', 'Frame', 'as', 'MutableFrame']) < 0 or 'port_occupancy' not in imported_from(SLPP_DE, ['game']):
         raise TranslateError('%s: expected `frame::mutable::Frame as MutableFrame` and `game::port_occupancy` among the imports' % SLPP_DE)
     return dict(name=name, target=target, vacc=vacc, vpath=vpath, dflt=dflt, fld=fld, when_true=steps(branch['true'], 'true'), when_false=steps(branch['false'], 'false'))
 
@@ -7034,10 +8544,10 @@ def gen_slpp_read_src():
     params, ret, body = find_fn(SLPP_DE, None, 'read')
     if sjp(params) != 'r : R , opts : Option < & Opts >' or sj(ret) != '-> Result < Game >':
         raise TranslateError('%s: unexpected signature (%s) %s' % (where, sjp(params), sj(ret)))
-    de_toks = tokenize(read(SLPP_DE), SLPP_DE)
+    de_toks = file_toks(SLPP_DE)
     if find_seq(de_toks, ['immutable', '::', 'Game']) < 0:
         raise TranslateError('%s: `Game` is not game::immutable::Game' % SLPP_DE)
-    gdecl = parse_struct_decl(tokenize(read(GAME_IMM_RS), GAME_IMM_RS), 'Game', GAME_IMM_RS)
+    gdecl = parse_struct_decl(file_toks(GAME_IMM_RS), 'Game', GAME_IMM_RS)
     if sorted(gdecl) != sorted(SX_GAME_FIELDS):
         raise TranslateError('%s: struct Game is not { %s }: %s' % (GAME_IMM_RS, ', '.join('%s: %s' % (a, b.replace(' ', '')) for a, b in SX_GAME_FIELDS), gdecl))
     pdecl = dict((f, t) for _, f, _, t in sx_serde_struct(PEPPI_MOD_RS, 'Peppi'))
@@ -7210,7 +8720,7 @@ def sa_value(text, ty, where):
 
 def sa_opts(rel):
     """-> (fields [(name, type)], how, defaults [(name, oval)])"""
-    toks = tokenize(read(rel), rel)
+    toks = file_toks(rel)
     w = '%s struct Opts' % rel
     i = find_seq(toks, ['struct', 'Opts'])
     if i < 0 or toks[i + 2][1] != '{':
@@ -7305,7 +8815,361 @@ def write_if_changed(path, content):
     return True
 
 
+# the binder names of the reference sources, per file and function (`impl header|fn name`), in source order: parameters, `let`, closure
+# parameters, `for`, match-arm and `if let` bindings.  Regenerate with `rust2coq.py --dump-binders` when the matchers of this file
+# are moved to new reference sources.  The table is only ever used to alpha-rename (see alpha_canon): a wrong or stale entry can
+# make a renaming impossible or pointless, never unsound.
+EXPECTED_BINDERS = {
+    'src/frame/immutable/mod.rs': {
+        'Data|transpose_one': 'i version',
+        'From < mutable :: Data > for Data|from': 'd v',
+        'PortData|transpose_one': 'i version f',
+        'From < mutable :: PortData > for PortData|from': 'p f',
+        'Frame|transpose_one': 'i version p start end i',
+        'Frame|rollbacks': 'keep',
+        'Frame|rollbacks_': 'ids result unique_id_count idx seen idx id zero_based_id',
+        'From < mutable :: Frame > for Frame|from': 'f p x x x x',
+        'fmt :: Debug for Frame|fmt': 'f',
+        'End|transpose_one': 'i version x',
+        'From < mutable :: End > for End|from': 'x x v',
+        'Item|transpose_one': 'i version x x x',
+        'From < mutable :: Item > for Item|from': 'x x x x v',
+        'ItemMisc|transpose_one': 'i version',
+        'From < mutable :: ItemMisc > for ItemMisc|from': 'x',
+        'Position|transpose_one': 'i version',
+        'From < mutable :: Position > for Position|from': 'x v',
+        'Post|transpose_one': 'i version x x x x x x x x x x x x x',
+        'From < mutable :: Post > for Post|from': 'x x x x x x x x x x x x x x v',
+        'Pre|transpose_one': 'i version x x x',
+        'From < mutable :: Pre > for Pre|from': 'x x x x v',
+        'Start|transpose_one': 'i version x',
+        'From < mutable :: Start > for Start|from': 'x x v',
+        'StateFlags|transpose_one': 'i version',
+        'From < mutable :: StateFlags > for StateFlags|from': 'x',
+        'TriggersPhysical|transpose_one': 'i version',
+        'From < mutable :: TriggersPhysical > for TriggersPhysical|from': 'x v',
+        'Velocities|transpose_one': 'i version',
+        'From < mutable :: Velocities > for Velocities|from': 'x v',
+        'Velocity|transpose_one': 'i version',
+        'From < mutable :: Velocity > for Velocity|from': 'x v',
+    },
+    'src/frame/immutable/peppi.rs': {
+        'Data|data_type': 'version',
+        'Data|into_struct_array': 'version values',
+        'Data|from_struct_array': 'array version values validity',
+        'PortData|data_type': 'version port fields',
+        'PortData|into_struct_array': 'version port values follower',
+        'PortData|from_struct_array': 'array version port fields values f x',
+        'Frame|port_data_type': 'version ports p',
+        'Frame|item_data_type': 'version',
+        'Frame|data_type': 'version ports fields',
+        'Frame|into_struct_array': 'version ports values occupancy data arrays item_values',
+        'Frame|port_data_from_struct_array': 'array version fields values ports i a',
+        'Frame|from_struct_array': 'array version fields values end_idx item_idx item item_offset v arrays item_offset item v i v',
+        'End|data_type': 'version fields',
+        'End|into_struct_array': 'version values',
+        'End|from_struct_array': 'array version values validity x',
+        'Item|data_type': 'version fields',
+        'Item|into_struct_array': 'version values',
+        'Item|from_struct_array': 'array version values validity x x x',
+        'ItemMisc|data_type': 'version fields',
+        'ItemMisc|into_struct_array': 'version values',
+        'ItemMisc|from_struct_array': 'array version values validity',
+        'Position|data_type': 'version fields',
+        'Position|into_struct_array': 'version values',
+        'Position|from_struct_array': 'array version values validity',
+        'Post|data_type': 'version fields',
+        'Post|into_struct_array': 'version values',
+        'Post|from_struct_array': 'array version values validity x x x x x x x x x x x x x',
+        'Pre|data_type': 'version fields',
+        'Pre|into_struct_array': 'version values',
+        'Pre|from_struct_array': 'array version values validity x x x',
+        'Start|data_type': 'version fields',
+        'Start|into_struct_array': 'version values',
+        'Start|from_struct_array': 'array version values validity x',
+        'StateFlags|data_type': 'version fields',
+        'StateFlags|into_struct_array': 'version values',
+        'StateFlags|from_struct_array': 'array version values validity',
+        'TriggersPhysical|data_type': 'version fields',
+        'TriggersPhysical|into_struct_array': 'version values',
+        'TriggersPhysical|from_struct_array': 'array version values validity',
+        'Velocities|data_type': 'version fields',
+        'Velocities|into_struct_array': 'version values',
+        'Velocities|from_struct_array': 'array version values validity',
+        'Velocity|data_type': 'version fields',
+        'Velocity|into_struct_array': 'version values',
+        'Velocity|from_struct_array': 'array version values validity',
+    },
+    'src/frame/immutable/slippi.rs': {
+        'Data|write_pre': 'w version idx frame_id port v',
+        'Data|write_post': 'w version idx frame_id port v',
+        'PortData|write_pre': 'w version idx frame_id f v',
+        'PortData|write_post': 'w version idx frame_id f v',
+        'Frame|write': 'w version idx frame_id port offset item_idx port',
+        'End|write': 'w version i',
+        'End|size': 'version size',
+        'Item|write': 'w version i',
+        'Item|size': 'version size',
+        'ItemMisc|write': 'w version i',
+        'ItemMisc|size': 'version size',
+        'Position|write': 'w version i',
+        'Position|size': 'version size',
+        'Post|write': 'w version i',
+        'Post|size': 'version size',
+        'Pre|write': 'w version i',
+        'Pre|size': 'version size',
+        'Start|write': 'w version i',
+        'Start|size': 'version size',
+        'StateFlags|write': 'w version i',
+        'StateFlags|size': 'version size',
+        'TriggersPhysical|write': 'w version i',
+        'TriggersPhysical|size': 'version size',
+        'Velocities|write': 'w version i',
+        'Velocities|size': 'version size',
+        'Velocity|write': 'w version i',
+        'Velocity|size': 'version size',
+    },
+    'src/frame/mutable.rs': {
+        'Data|with_capacity': 'capacity version',
+        'Data|push_null': 'version len',
+        'Data|transpose_one': 'i version',
+        'PortData|with_capacity': 'capacity version port',
+        'PortData|transpose_one': 'i version f',
+        'Frame|with_capacity': 'capacity version ports p',
+        'Frame|transpose_one': 'i version p start end i',
+        'End|with_capacity': 'capacity version',
+        'End|len': 'v',
+        'End|push_null': 'version len',
+        'End|read_push': 'r version x v',
+        'End|transpose_one': 'i version x',
+        'Item|with_capacity': 'capacity version',
+        'Item|push_null': 'version len',
+        'Item|read_push': 'r version x x x x x x x x v',
+        'Item|transpose_one': 'i version x x x',
+        'ItemMisc|with_capacity': 'capacity version',
+        'ItemMisc|push_null': 'version',
+        'ItemMisc|read_push': 'r version x x x x',
+        'ItemMisc|transpose_one': 'i version',
+        'Position|with_capacity': 'capacity version',
+        'Position|push_null': 'version len',
+        'Position|read_push': 'r version x x v',
+        'Position|transpose_one': 'i version',
+        'Post|with_capacity': 'capacity version',
+        'Post|push_null': 'version len',
+        'Post|read_push': 'r version x x x x x x x x x x x x x x x x x x x x v',
+        'Post|transpose_one': 'i version x x x x x x x x x x x x x',
+        'Pre|with_capacity': 'capacity version',
+        'Pre|push_null': 'version len',
+        'Pre|read_push': 'r version x x x x x x x x x v',
+        'Pre|transpose_one': 'i version x x x',
+        'Start|with_capacity': 'capacity version',
+        'Start|push_null': 'version len',
+        'Start|read_push': 'r version x x v',
+        'Start|transpose_one': 'i version x',
+        'StateFlags|with_capacity': 'capacity version',
+        'StateFlags|push_null': 'version',
+        'StateFlags|read_push': 'r version x x x x x',
+        'StateFlags|transpose_one': 'i version',
+        'TriggersPhysical|with_capacity': 'capacity version',
+        'TriggersPhysical|push_null': 'version len',
+        'TriggersPhysical|read_push': 'r version x x v',
+        'TriggersPhysical|transpose_one': 'i version',
+        'Velocities|with_capacity': 'capacity version',
+        'Velocities|push_null': 'version len',
+        'Velocities|read_push': 'r version x x x x x v',
+        'Velocities|transpose_one': 'i version',
+        'Velocity|with_capacity': 'capacity version',
+        'Velocity|push_null': 'version len',
+        'Velocity|read_push': 'r version x x v',
+        'Velocity|transpose_one': 'i version',
+    },
+    'src/game/immutable.rs': {
+        'game :: Game for Game|frame': 'idx',
+    },
+    'src/game/mod.rs': {
+        'Port|parse': 's',
+        'Display for Port|fmt': 'f',
+        'Debug for Bytes|fmt': 'f',
+        'End|size': 'version',
+        '|port_occupancy': 'start p',
+    },
+    'src/game/shift_jis.rs': {
+        'TryFrom < & [ u8 ] > for MeleeString|try_from': 's first_null x cow',
+        '|fix_char': 'c c c',
+    },
+    'src/io/mod.rs': {
+        '< R : Read > HashingReader < R >|new': 'reader hash',
+        '< R : Read > Read for HashingReader < R >|read': 'buf n h',
+        '< R : Read + Seek > Seek for HashingReader < R >|seek': 'pos n',
+        '|parse_u8': 's',
+        '|expect_bytes': 'r expected actual',
+        '|format_hash': 'hasher',
+    },
+    'src/io/peppi/de.rs': {
+        '|read_arrow_frames': 'r version metadata reader frame result chunk f f',
+        '|read_peppi_start': 'r buf',
+        '|read_peppi_end': 'r buf',
+        '|read_peppi_metadata': 'r json_object map obj',
+        '|read_peppi_gecko_codes': 'r actual_size bytes',
+        '|read': 'r opts start end metadata gecko_codes frames peppi entry file path n p version s o start size buf peppi',
+    },
+    'src/io/peppi/mod.rs': {
+        'fmt :: Display for Version|fmt': 'f',
+        'str :: FromStr for Version|from_str': 's i major minor revision',
+        '|assert_current_version': 'version',
+    },
+    'src/io/peppi/ser.rs': {
+        '|tar_append': 'builder buf path header',
+        '|write': 'w game opts tar end gecko_codes buf ports batch schema chunk buf writer o',
+    },
+    'src/io/slippi/de.rs': {
+        'From < PartialGame > for Game|from': 'game',
+        'game :: Game for ParseState|frame': 'idx',
+        'ParseState|last_id': 'id',
+        'ParseState|frame_open': 'id',
+        'ParseState|expect_id': 'id last_id last_id',
+        'ParseState|data_mut': 'port is_follower port_data i p',
+        'ParseState|frame_close': 'len p f',
+        '|if_more': 'r f',
+        '|invalid_data': 'err',
+        '|player': 'port v0 is_teams v1_0 v1_3 v3_9_name v3_9_code v3_11 r unmapped character r#type stocks costume team_shade handicap team_color team bitfield cpu_level cpu_level offense_ratio defense_ratio model_scale ucf v1_0 r x x name_tag v1_3 netplay name code suid v3_11 first_null x result r#type',
+        '|player_bytes': 'r arrs buf',
+        '|game_start': 'r bytes slippi unmapped bitfield buf is_raining_bombs is_teams item_spawn_frequency self_destruct_score stage timer item_spawn_bitfield buf damage_ratio players_v0 random_seed players_v1_0 r players_v1_3 r is_pal r is_frozen_ps r scene r players_v3_9 r players_v3_11 r language r r#match r id buf first_null x result game tiebreaker players n p p p p p',
+        '|player_end': 'port placement p',
+        '|game_end': 'r bytes method lras_initiator r x players r placements n',
+        '|handle_splitter_event': 'buf accumulator actual_size wrapped_event is_final',
+        '|debug_write_event': 'buf code state debug code_dir count s f',
+        '|parse_payloads': 'r opts code size buf buf d o sizes code size c s s',
+        '|parse_game_start': 'r payload_sizes bytes_read opts code size buf d o',
+        '|parse_header': 'r _opts',
+        '|parse_start': 'r opts bytes_read payload_sizes bytes_read start ports version capacity o game port_indexes result i p event_counts',
+        '|parse_event': 'r state opts code size buf wrapped_event d o event event r id r id port is_follower last_id version data v r id port is_follower version r id old_len new_len r id',
+        '|parse_metadata': 'r state _opts metadata',
+        '|read': 'r opts hash o r raw_len state o end_offset skip len buf x',
+    },
+    'src/io/slippi/mod.rs': {
+        'Version|gte': 'major minor',
+        'Version|lt': 'major minor',
+        'str :: FromStr for Version|from_str': 's i major minor patch',
+        'fmt :: Display for Version|fmt': 'f',
+        '|assert_max_version': 'version',
+    },
+    'src/io/slippi/ser.rs': {
+        'PayloadSizes|push': 'event size',
+        'PayloadSizes|raw_size': 'game counts sizes k v q s s s',
+        '|payload_sizes': 'game sizes ver e codes',
+        '|gecko_codes': 'w codes pos actual_size',
+        '|game_start': 'w s ver',
+        '|game_end': 'w e _ver',
+        '|frame_counts': 'frames len p v f v i',
+        '|gecko_codes_size': 'gecko_codes num_blocks',
+        '|write': 'w game payload_sizes event size ver codes end q metadata',
+    },
+    'src/io/ubjson/de.rs': {
+        '|to_utf8': 'r length buf',
+        '|to_val': 'r depth c c',
+        '|to_key': 'r c',
+        '|read_map': 'r',
+        '|read_map_at': 'r depth m k',
+    },
+    'src/io/ubjson/ser.rs': {
+        '|write_utf8': 'w s',
+        '|write_map': 'w map k v s n o',
+    },
+}
+# ... and which operand of every `literal + chain` sum is the literal, per function ('L' first, 'R' last); see sum_canon
+EXPECTED_SUMS = {
+    'src/frame/immutable/mod.rs': {'Frame|rollbacks_': 'L'},
+    'src/frame/immutable/slippi.rs': {'Frame|write': 'R'},
+    'src/game/shift_jis.rs': {'|fix_char': 'R'},
+    'src/io/slippi/de.rs': {'|parse_payloads': 'L', '|parse_event': 'R', '|read': 'LL'},
+    'src/io/slippi/ser.rs': {'PayloadSizes|raw_size': 'LLL', '|gecko_codes': 'R'},
+    'src/io/ubjson/de.rs': {'|to_val': 'R'},
+}
+
+
+def run_front_end(gen):
+    """run a front end on the sources as they are (binder names canonicalised); if it fails, once more under each structural
+    normalisation pass that changes one of the files it read, then under all of them -- every variant is a program equivalent to
+    the source, so whichever the front end accepts describes the source.  If none is accepted the ORIGINAL failure is reported."""
+    global NORM_LEVEL
+    NORM_LEVEL = FORCED_LEVEL
+    _READ_LOG.clear()
+    try:
+        return gen()
+    except TranslateError as e0:
+        if FORCED_LEVEL or os.environ.get('RUST2COQ_NO_RETRY'):
+            raise
+        files = sorted(_READ_LOG)
+        base = {}
+        for rel in files:
+            try:
+                base[rel] = file_toks(rel)
+            except Exception:
+                pass
+        tried = []
+        levels = []
+        for pname, site in NORM_PASSES:          # 1. one site of one pass at a time
+            for rel in sorted(base):
+                try:
+                    n = apply_pass(site, raw_toks(rel), rel, pick=-1)[1]
+                except Exception:
+                    n = 0
+                levels.extend(((pname, rel, k),) for k in range(min(n, 40)))
+        levels.extend((n,) for n in NORM_ALL)    # 2. one pass everywhere   3. all passes
+        levels.append(NORM_ALL)
+        try:
+            for level in levels:
+                NORM_LEVEL = level
+                try:
+                    variant = {rel: file_toks(rel) for rel in base}
+                except Exception:
+                    continue
+                if variant == base or variant in tried:
+                    continue          # this variant shows the front end nothing new
+                tried.append(variant)
+                try:
+                    out = gen()
+                    if os.environ.get('RUST2COQ_DEBUG'):
+                        sys.stderr.write('retry: accepted under %r (after %d variants); original failure: %s\n' % (level, len(tried), str(e0)[:200]))
+                    return out
+                except Exception as e1:
+                    if os.environ.get('RUST2COQ_DEBUG'):
+                        sys.stderr.write('retry: %r -> %s\n' % (level, str(e1)[:160]))
+        finally:
+            NORM_LEVEL = ()
+        raise e0
+    finally:
+        NORM_LEVEL = ()
+
+
+FORCED_LEVEL = tuple(x for x in os.environ.get('RUST2COQ_FORCE_PASSES', '').split(',') if x)     # testing aid: always normalise with these passes
+if FORCED_LEVEL == ('all',):
+    FORCED_LEVEL = NORM_ALL
+
+
 def main():
+    if sys.argv[1:2] == ['--dump-binders']:
+        # the table EXPECTED_BINDERS for the sources under $PEPPI_REPO (to be pasted below when the reference sources change)
+        rels = []
+        for root, _, files in os.walk(os.path.join(REPO, 'src')):
+            for f in files:
+                if f.endswith('.rs'):
+                    rels.append(os.path.relpath(os.path.join(root, f), REPO))
+        d = dump_binders(rels)
+        print('EXPECTED_BINDERS = {')
+        for rel in sorted(d):
+            print('    %r: {' % rel)
+            for k in d[rel]:
+                print('        %r: %r,' % (k, ' '.join(d[rel][k])))
+            print('    },')
+        print('}')
+        d = dump_sums(rels)
+        print('EXPECTED_SUMS = {')
+        for rel in sorted(d):
+            print('    %r: %r,' % (rel, d[rel]))
+        print('}')
+        return
     report = {'repo': REPO, 'files': [], 'changed': [], 'errors': []}
     ok = True
     for name, gen in (('Funs.v', gen_funs), ('Tables.v', lambda: emit_tables(gen_tables())), ('Layouts.v', gen_layouts),
@@ -7321,7 +9185,7 @@ def main():
                       ('UbjsonBodies.v', gen_ubjson_bodies), ('TarSrc.v', gen_tar_src),
                       ('SlppWriteSrc.v', gen_slpp_write_src), ('SlppReadSrc.v', gen_slpp_read_src), ('SlppOptsSrc.v', gen_slpp_opts_src)):
         try:
-            content = gen()
+            content = run_front_end(gen)
             if write_if_changed(os.path.join(OUT, name), content):
                 report['changed'].append(name)
             report['files'].append(name)
